@@ -21,15 +21,41 @@
   * `native_first_pass_cbor` : for native untyped values the first re-marshal is already byte-identical (b2 = b1).
   * `fixpoint_json`       : the same for JSON on what JSON can carry (no byte strings, finite floats whose printed
                             text re-reads exactly (`C03.FloatsOk`-style hypothesis), no float -0).
+
+  Status.
+    * `unm_yields_untyped`, `marshal_sortU`, `unm_canon_untyped` : proved as stated.
+    * `untyped_roundtrip`, `fixpoint_tokens`, `fixpoint_cbor`, `native_first_pass_cbor` : the fuel side condition as
+      first written (`… + n + 64 < fuel`) is too weak: a level of `[]interface{}` costs five units of fuel but only two
+      tokens (one CBOR byte), and the unmarshaller needs one unit more than the marshaller.  The first statements are
+      kept (`untyped_roundtrip_statement`, `fixpoint_tokens_statement`, `fixpoint_cbor_statement`) and refuted by a
+      33-fold nested `[[…[nil]…]]` at fuel 167 (`*_statement_false`); the theorems are proved with `3 * n` in place
+      of `n` (a pure fuel adjustment; fuel is a model artefact).  `smallU` additionally bounds container lengths by
+      2^63 (a Go `int`), which C02's domain needs.
+    * `fixpoint_json` : same fuel adjustment (here the first bound is not refuted: JSON spends two bytes per level),
+      and `jsonU` carries one more decidable per-float condition, `floatStable`: the float's text re-reads
+      (`numTok`) as a number that prints as the same text.  For an integral float such as 1.0 the text `1` comes back
+      as the *int* 1, which is re-marshalled as `1`; that the texts agree in general is the round-trip property of
+      strconv's shortest formatting (`FloatText.jsonFloat`/`parseDecimal`), which is not proved here.
+    * Non-vacuity: a concrete environment (`exTs`, `exA`, `exIt`, `exEnv`) and `fixpoint_cbor` / `fixpoint_json`
+      instantiated on `map[string]interface{}{"b": []interface{}{5, "x", nil}, "a": 7}` at the end of the file.
+
+  Proof plan: `treeU` is the token tree of a native untyped value; `marshal_tree` (the marshaller emits its
+  flattening), `unm_tree` (the untyped unmarshaller reads it back as `sortU`), `marshal_sortU_all`, `unm_compat`
+  (the untyped unmarshaller does not see declared lengths nor the signedness spelling of small integers).
+  Lemmas that do not depend on the definitions of this file are in RefmtProofs/Lemmas/Untyped.lean.
 -/
 import RefmtModel
 import RefmtProofs.Props.C02
 import RefmtProofs.Props.C03
+import RefmtProofs.Props.C07
 import RefmtProofs.Props.C08
+import RefmtProofs.Lemmas.Untyped
 set_option linter.unusedSimpArgs false
 set_option linter.unusedVariables false
+set_option linter.unusedSectionVars false
 namespace Refmt.C12
-open Refmt Refmt.Obj
+open Refmt Refmt.Obj Refmt.C12L
+
 
 /-- The untyped universe as the harness (and Go) sets it up: the ids in `it` name the predeclared types, which
     the atlas cannot override, and the two untyped container types, which have no atlas entry. -/
@@ -86,30 +112,1211 @@ def tokPlain (t : Tok) : Bool :=
    | .float b => decide (b < two64)
    | _ => true)
 
+
+/-! ### The token tree of a native untyped value -/
+
+/-- the token tree the marshaller emits for a native untyped value (exact lengths, keys in marshalling order) -/
+def treeU (mode : KeySort) : Nat → Val → TV
+  | 0, _ => .scalar ⟨.null, none⟩
+  | f+1, .iface (some (_, x)) =>
+    (match x with
+     | .str s => .scalar ⟨.str s, none⟩
+     | .bytes (some b) => .scalar ⟨.bytes b, none⟩
+     | .bool b => .scalar ⟨.bool b, none⟩
+     | .int i => .scalar ⟨.int i, none⟩
+     | .uint n => .scalar ⟨.uint n, none⟩
+     | .float b => .scalar ⟨.float b, none⟩
+     | .slice (some vs) => .arr none vs.length (vs.map (treeU mode f))
+     | .map (some es) =>
+       .map none es.length ((sortKeys mode (es.map fun p => (keyOf p.1, p.2))).map fun p =>
+         (TV.scalar ⟨.str p.1, none⟩, treeU mode f p.2))
+     | _ => .scalar ⟨.null, none⟩)
+  | _, _ => .scalar ⟨.null, none⟩
+
+
+/-! ### Unfolding the marshaller on the untyped universe -/
+
+section env
+variable {ts : Types} {a : Atlas} {it : IfaceTys} (trs : Trs) (he : UEnv ts a it)
+include he
+
+theorem peel_iface : peel ts 64 0 it.iface = (0, it.iface) := peel_nonptr ts 64 0 _ (by simp [he.iface])
+theorem peel_str : peel ts 64 0 it.str = (0, it.str) := peel_nonptr ts 64 0 _ (by simp [he.str])
+theorem peel_bytes : peel ts 64 0 it.bytes = (0, it.bytes) := peel_nonptr ts 64 0 _ (by simp [he.bytes])
+theorem peel_bool : peel ts 64 0 it.bool = (0, it.bool) := peel_nonptr ts 64 0 _ (by simp [he.bool])
+theorem peel_int : peel ts 64 0 it.int = (0, it.int) := peel_nonptr ts 64 0 _ (by simp [he.int])
+theorem peel_uint64 : peel ts 64 0 it.uint64 = (0, it.uint64) := peel_nonptr ts 64 0 _ (by simp [he.uint64])
+theorem peel_f64 : peel ts 64 0 it.f64 = (0, it.f64) := peel_nonptr ts 64 0 _ (by simp [he.f64])
+theorem peel_mapSI : peel ts 64 0 it.mapSI = (0, it.mapSI) := peel_nonptr ts 64 0 _ (by simp [he.mapSI])
+theorem peel_sliceI : peel ts 64 0 it.sliceI = (0, it.sliceI) := peel_nonptr ts 64 0 _ (by simp [he.sliceI])
+
+theorem pick_iface : pickBare ts a it.iface = .wildcard := by simp [pickBare, he.iface, he.noIface]
+theorem pick_str : pickBare ts a it.str = .prim := by simp [pickBare, he.str]
+theorem pick_bytes : pickBare ts a it.bytes = .prim := by simp [pickBare, he.bytes]
+theorem pick_bool : pickBare ts a it.bool = .prim := by simp [pickBare, he.bool]
+theorem pick_int : pickBare ts a it.int = .prim := by simp [pickBare, he.int]
+theorem pick_uint64 : pickBare ts a it.uint64 = .prim := by simp [pickBare, he.uint64]
+theorem pick_f64 : pickBare ts a it.f64 = .prim := by simp [pickBare, he.f64]
+theorem pick_mapSI : pickBare ts a it.mapSI = .map it.str it.iface a.defaultSort := by simp [pickBare, he.mapSI, he.noMap]
+theorem pick_sliceI : pickBare ts a it.sliceI = .slice it.iface := by simp [pickBare, he.sliceI, he.noSlice]
+
+theorem mV_nil (f : Nat) : marshalV ts a trs (f+2) it.iface (.iface none) = ⟨[⟨.null, none⟩], none⟩ := by
+  simp [marshalV, peel_iface he, pick_iface he, marshalBare, MOut.ok]
+
+theorem mV_some (f d : Nat) (x : Val) :
+    marshalV ts a trs (f+2) it.iface (.iface (some (d, x))) = marshalV ts a trs f d x := by
+  simp [marshalV, peel_iface he, pick_iface he, marshalBare]
+
+theorem mV_str (f : Nat) (x : Val) : marshalV ts a trs (f+2) it.str x = primTok ts it.str x := by
+  simp [marshalV, peel_str he, pick_str he, marshalBare]
+theorem mV_bytes (f : Nat) (x : Val) : marshalV ts a trs (f+2) it.bytes x = primTok ts it.bytes x := by
+  simp [marshalV, peel_bytes he, pick_bytes he, marshalBare]
+theorem mV_bool (f : Nat) (x : Val) : marshalV ts a trs (f+2) it.bool x = primTok ts it.bool x := by
+  simp [marshalV, peel_bool he, pick_bool he, marshalBare]
+theorem mV_int (f : Nat) (x : Val) : marshalV ts a trs (f+2) it.int x = primTok ts it.int x := by
+  simp [marshalV, peel_int he, pick_int he, marshalBare]
+theorem mV_uint64 (f : Nat) (x : Val) : marshalV ts a trs (f+2) it.uint64 x = primTok ts it.uint64 x := by
+  simp [marshalV, peel_uint64 he, pick_uint64 he, marshalBare]
+theorem mV_f64 (f : Nat) (x : Val) : marshalV ts a trs (f+2) it.f64 x = primTok ts it.f64 x := by
+  simp [marshalV, peel_f64 he, pick_f64 he, marshalBare]
+
+theorem mV_slice (f : Nat) (vs : List Val) :
+    marshalV ts a trs (f+2) it.sliceI (.slice (some vs)) =
+      (MOut.ok [⟨.arrOpen vs.length, none⟩]).seq fun _ =>
+        (marshalList ts a trs f it.iface vs).seq fun _ => .ok [⟨.arrClose, none⟩] := by
+  simp [marshalV, peel_sliceI he, pick_sliceI he, marshalBare]
+
+
+theorem mV_map (f : Nat) (es : List (Val × Val)) (hk : ∀ p ∈ es, ∃ s, p.1 = .str s) :
+    marshalV ts a trs (f+2) it.mapSI (.map (some es)) =
+      (MOut.ok [⟨.mapOpen es.length, none⟩]).seq fun _ =>
+        (marshalEntries ts a trs f it.iface (sortKeys a.defaultSort (es.map fun p => (keyOf p.1, p.2)))).seq
+          fun _ => .ok [⟨.mapClose, none⟩] := by
+  simp only [marshalV, peel_mapSI he, pick_mapSI he]
+  simp only [beq_self_eq_true, if_true]
+  unfold marshalBare
+  simp only [he.str, Option.getD_some]
+  rw [C08.mapM_eq_some_map _ (fun (p : Val × Val) => (keyOf p.1, p.2)) es ?_]
+  · simp
+  · intro p hp
+    obtain ⟨s, hs⟩ := hk p hp
+    obtain ⟨k, x⟩ := p
+    simp only at hs
+    subst hs
+    rfl
+
+end env
+
+/-! ### Inversion of `isU` -/
+
+inductive UV (it : IfaceTys) : Nat → Val → Prop
+  | nil (f : Nat) : UV it (f+1) (.iface none)
+  | str (f : Nat) (s : Bytes) : UV it (f+1) (.iface (some (it.str, .str s)))
+  | bytes (f : Nat) (b : Bytes) : UV it (f+1) (.iface (some (it.bytes, .bytes (some b))))
+  | bool (f : Nat) (b : Bool) : UV it (f+1) (.iface (some (it.bool, .bool b)))
+  | int (f : Nat) (i : Int) (h1 : -(two63 : Int) ≤ i) (h2 : i < (two63 : Int)) : UV it (f+1) (.iface (some (it.int, .int i)))
+  | uint (f : Nat) (n : Nat) (h1 : two63 ≤ n) (h2 : n < two64) : UV it (f+1) (.iface (some (it.uint64, .uint n)))
+  | float (f : Nat) (b : Nat) (h : b < two64) : UV it (f+1) (.iface (some (it.f64, .float b)))
+  | slice (f : Nat) (vs : List Val) (h : ∀ x ∈ vs, isU it f x = true) :
+      UV it (f+1) (.iface (some (it.sliceI, .slice (some vs))))
+  | map (f : Nat) (es : List (Val × Val)) (hk : ∀ p ∈ es, ∃ s, p.1 = .str s) (hv : ∀ p ∈ es, isU it f p.2 = true)
+      (hd : (es.map fun p => keyOf p.1).Nodup) :
+      UV it (f+1) (.iface (some (it.mapSI, .map (some es))))
+
+theorem isU_UV {it : IfaceTys} {n : Nat} {u : Val} (h : isU it n u = true) : UV it n u := by
+  unfold isU at h
+  split at h
+  · cases h
+  · exact .nil _
+  · split at h
+    all_goals try simp only [Bool.and_eq_true, beq_iff_eq, decide_eq_true_eq, List.all_eq_true] at h
+    · subst h; exact .str _ _
+    · subst h; exact .bytes _ _
+    · subst h; exact .bool _ _
+    · obtain ⟨⟨rfl, h1⟩, h2⟩ := h; exact .int _ _ h1 h2
+    · obtain ⟨⟨rfl, h1⟩, h2⟩ := h; exact .uint _ _ h1 h2
+    · obtain ⟨rfl, h1⟩ := h; exact .float _ _ h1
+    · obtain ⟨rfl, h1⟩ := h; exact .slice _ _ h1
+    · obtain ⟨⟨rfl, h1⟩, h2⟩ := h
+      refine .map _ _ ?_ ?_ ?_
+      · intro p hp
+        have := (h1 p hp).1
+        obtain ⟨k, y⟩ := p
+        cases k <;> simp at this
+        exact ⟨_, rfl⟩
+      · intro p hp; exact (h1 p hp).2
+      · exact h2
+    · cases h
+  · cases h
+
+theorem UV_isU {it : IfaceTys} {n : Nat} {u : Val} (h : UV it n u) : isU it n u = true := by
+  cases h <;> simp_all [isU]
+  rename_i f es hk hv hd
+  intro k y hp
+  obtain ⟨s, hs⟩ := hk _ _ hp
+  subst hs
+  exact ⟨rfl, hv _ _ hp⟩
+
+
+section env
+variable {ts : Types} {a : Atlas} {it : IfaceTys} (trs : Trs) (he : UEnv ts a it)
+include he
+
+/-- `marshalV` on the untyped slot with enough fuel: the flattening of `treeU` -/
+def MTree (f : Nat) : Prop := ∀ u fuel, isU it f u = true → (treeU a.defaultSort f u).flatten.length + 3 * f ≤ fuel →
+    marshalV ts a trs fuel it.iface u = ⟨(treeU a.defaultSort f u).flatten, none⟩
+
+omit he in
+theorem mList_tree (f : Nat) (ih : MTree (ts := ts) (a := a) (it := it) trs f) : ∀ (vs : List Val) (F : Nat),
+    (∀ x ∈ vs, isU it f x = true) →
+    (TV.flattenList (vs.map (treeU a.defaultSort f))).length + 1 + 3 * f ≤ F →
+    marshalList ts a trs F it.iface vs = ⟨TV.flattenList (vs.map (treeU a.defaultSort f)), none⟩ := by
+  intro vs
+  induction vs with
+  | nil =>
+    intro F _ hF
+    obtain ⟨F', rfl⟩ : ∃ F', F = F' + 1 := ⟨F - 1, by omega⟩
+    simp [marshalList, TV.flattenList, MOut.ok]
+  | cons x xs ihl =>
+    intro F hU hF
+    obtain ⟨F', rfl⟩ : ∃ F', F = F' + 1 := ⟨F - 1, by omega⟩
+    simp only [List.map_cons, TV.flattenList, List.length_append] at hF ⊢
+    have hp := flatten_pos (treeU a.defaultSort f x)
+    rw [marshalList, ih x F' (hU x (by simp)) (by omega), ihl F' (fun y hy => hU y (by simp [hy])) (by omega)]
+    simp [MOut.seq]
+
+omit he in
+theorem mEntries_tree (f : Nat) (ih : MTree (ts := ts) (a := a) (it := it) trs f) : ∀ (L : List (Bytes × Val)) (F : Nat),
+    (∀ p ∈ L, isU it f p.2 = true) →
+    (TV.flattenEntries (L.map fun p => (TV.scalar ⟨.str p.1, none⟩, treeU a.defaultSort f p.2))).length + 1 + 3 * f ≤ F →
+    marshalEntries ts a trs F it.iface L =
+      ⟨TV.flattenEntries (L.map fun p => (TV.scalar ⟨.str p.1, none⟩, treeU a.defaultSort f p.2)), none⟩ := by
+  intro L
+  induction L with
+  | nil =>
+    intro F _ hF
+    obtain ⟨F', rfl⟩ : ∃ F', F = F' + 1 := ⟨F - 1, by omega⟩
+    simp [marshalEntries, TV.flattenEntries, MOut.ok]
+  | cons p xs ihl =>
+    intro F hU hF
+    obtain ⟨k, x⟩ := p
+    obtain ⟨F', rfl⟩ : ∃ F', F = F' + 1 := ⟨F - 1, by omega⟩
+    simp only [List.map_cons, TV.flattenEntries, TV.flatten, List.length_append, List.length_cons, List.length_nil] at hF ⊢
+    have hp := flatten_pos (treeU a.defaultSort f x)
+    rw [marshalEntries, ih x F' (hU (k, x) (by simp)) (by omega), ihl F' (fun y hy => hU y (by simp [hy])) (by omega)]
+    simp [MOut.seq, MOut.ok]
+
+
+theorem sortKeys_mem_isU (mode : KeySort) (f : Nat) (es : List (Val × Val)) (hv : ∀ p ∈ es, isU it f p.2 = true) :
+    ∀ p ∈ sortKeys mode (es.map fun p => (keyOf p.1, p.2)), isU it f p.2 = true := by
+  intro p hp
+  have := (C08.sortKeys_perm mode _).mem_iff.mp hp
+  simp only [List.mem_map] at this
+  obtain ⟨q, hq, rfl⟩ := this
+  exact hv q hq
+
+theorem marshal_tree_all : ∀ f, MTree (ts := ts) (a := a) (it := it) trs f := by
+  intro f
+  induction f with
+  | zero => intro u fuel hu; simp [isU] at hu
+  | succ f ih =>
+    intro u fuel hu hF
+    have hUV := isU_UV hu
+    cases hUV with
+    | nil =>
+      simp only [treeU, TV.flatten, List.length_cons, List.length_nil] at hF ⊢
+      obtain ⟨F', rfl⟩ : ∃ F', fuel = F' + 2 := ⟨fuel - 2, by omega⟩
+      exact mV_nil trs he F'
+    | str _ s =>
+      simp only [treeU, TV.flatten, List.length_cons, List.length_nil] at hF ⊢
+      obtain ⟨F', rfl⟩ : ∃ F', fuel = F' + 4 := ⟨fuel - 4, by omega⟩
+      rw [mV_some trs he, mV_str trs he]; rfl
+    | bytes _ b =>
+      simp only [treeU, TV.flatten, List.length_cons, List.length_nil] at hF ⊢
+      obtain ⟨F', rfl⟩ : ∃ F', fuel = F' + 4 := ⟨fuel - 4, by omega⟩
+      rw [mV_some trs he, mV_bytes trs he]; rfl
+    | bool _ b =>
+      simp only [treeU, TV.flatten, List.length_cons, List.length_nil] at hF ⊢
+      obtain ⟨F', rfl⟩ : ∃ F', fuel = F' + 4 := ⟨fuel - 4, by omega⟩
+      rw [mV_some trs he, mV_bool trs he]; rfl
+    | int _ i h1 h2 =>
+      simp only [treeU, TV.flatten, List.length_cons, List.length_nil] at hF ⊢
+      obtain ⟨F', rfl⟩ : ∃ F', fuel = F' + 4 := ⟨fuel - 4, by omega⟩
+      rw [mV_some trs he, mV_int trs he]; rfl
+    | uint _ n h1 h2 =>
+      simp only [treeU, TV.flatten, List.length_cons, List.length_nil] at hF ⊢
+      obtain ⟨F', rfl⟩ : ∃ F', fuel = F' + 4 := ⟨fuel - 4, by omega⟩
+      rw [mV_some trs he, mV_uint64 trs he]; rfl
+    | float _ b h =>
+      simp only [treeU, TV.flatten, List.length_cons, List.length_nil] at hF ⊢
+      obtain ⟨F', rfl⟩ : ∃ F', fuel = F' + 4 := ⟨fuel - 4, by omega⟩
+      rw [mV_some trs he, mV_f64 trs he]; rfl
+    | slice _ vs h =>
+      simp only [treeU, TV.flatten, List.length_cons, List.length_append, List.length_nil] at hF ⊢
+      obtain ⟨F', rfl⟩ : ∃ F', fuel = F' + 4 := ⟨fuel - 4, by omega⟩
+      rw [mV_some trs he, mV_slice trs he, mList_tree trs f ih vs F' h (by omega)]
+      simp [MOut.seq, MOut.ok]
+    | map _ es hk hv hd =>
+      simp only [treeU, TV.flatten, List.length_cons, List.length_append, List.length_nil] at hF ⊢
+      obtain ⟨F', rfl⟩ : ∃ F', fuel = F' + 4 := ⟨fuel - 4, by omega⟩
+      rw [mV_some trs he, mV_map trs he _ es hk,
+        mEntries_tree trs f ih _ F' (sortKeys_mem_isU he a.defaultSort f es hv) (by omega)]
+      simp [MOut.seq, MOut.ok]
+
+/-- L1: with enough fuel the marshaller emits the flattening of `treeU` -/
+theorem marshal_tree (n : Nat) (u : Val) (fuel : Nat) (hu : isU it n u = true)
+    (hF : (treeU a.defaultSort n u).flatten.length + 3 * n ≤ fuel) :
+    marshalV ts a trs fuel it.iface u = ⟨(treeU a.defaultSort n u).flatten, none⟩ :=
+  marshal_tree_all trs he n u fuel hu hF
+
+/-- whenever the marshaller succeeds, the tokens are the flattening of `treeU` -/
+theorem marshal_ok_tree (n : Nat) (u : Val) (fuel : Nat) (toks : List Tok) (hu : isU it n u = true)
+    (hm : marshalV ts a trs fuel it.iface u = ⟨toks, none⟩) : toks = (treeU a.defaultSort n u).flatten := by
+  have h1 := C07.marshal_fuel_mono_le ts a trs fuel (max fuel ((treeU a.defaultSort n u).flatten.length + 3 * n)) it.iface u _ hm
+    (by simp) (Nat.le_max_left _ _)
+  rw [marshal_tree trs he n u _ hu (Nat.le_max_right _ _)] at h1
+  simpa using h1.symm
+
+end env
+
+/-- `sortU` written with projections -/
+theorem sortU_slice (mode : KeySort) (f d : Nat) (vs : List Val) :
+    sortU mode (f+1) (.iface (some (d, .slice (some vs)))) = .iface (some (d, .slice (some (vs.map (sortU mode f))))) := rfl
+
+theorem sortU_map (mode : KeySort) (f d : Nat) (es : List (Val × Val)) :
+    sortU mode (f+1) (.iface (some (d, .map (some es)))) =
+      .iface (some (d, .map (some ((sortKeys mode (es.map fun p => (keyOf p.1, sortU mode f p.2))).map fun p => (Val.str p.1, p.2))))) := rfl
+
+section env
+variable {ts : Types} {a : Atlas} {it : IfaceTys} (trs : Trs) (he : UEnv ts a it)
+include he
+
+omit he in
+theorem mList_congr (g : Val → Val) (e : Nat) : ∀ (vs : List Val),
+    (∀ x ∈ vs, ∀ F, marshalV ts a trs F e (g x) = marshalV ts a trs F e x) →
+    ∀ F, marshalList ts a trs F e (vs.map g) = marshalList ts a trs F e vs := by
+  intro vs
+  induction vs with
+  | nil => intro _ F; rfl
+  | cons x xs ih =>
+    intro h F
+    cases F with
+    | zero => simp [marshalList]
+    | succ F =>
+      simp only [List.map_cons, marshalList]
+      rw [h x (by simp) F, ih (fun y hy => h y (by simp [hy])) F]
+
+omit he in
+theorem mEntries_congr (g : Val → Val) (e : Nat) : ∀ (L : List (Bytes × Val)),
+    (∀ p ∈ L, ∀ F, marshalV ts a trs F e (g p.2) = marshalV ts a trs F e p.2) →
+    ∀ F, marshalEntries ts a trs F e (L.map fun p => (p.1, g p.2)) = marshalEntries ts a trs F e L := by
+  intro L
+  induction L with
+  | nil => intro _ F; rfl
+  | cons x xs ih =>
+    intro h F
+    obtain ⟨k, x⟩ := x
+    cases F with
+    | zero => simp [marshalEntries]
+    | succ F =>
+      simp only [List.map_cons, marshalEntries]
+      rw [h (k, x) (by simp) F, ih (fun y hy => h y (by simp [hy])) F]
+
+theorem marshal_sortU_all : ∀ (n : Nat) (u : Val), isU it n u = true → ∀ fuel,
+    marshalV ts a trs fuel it.iface (sortU a.defaultSort n u) = marshalV ts a trs fuel it.iface u := by
+  intro n
+  induction n with
+  | zero => intro u hu; simp [isU] at hu
+  | succ f ih =>
+    intro u hu fuel
+    have hUV := isU_UV hu
+    cases hUV with
+    | slice _ vs h =>
+      rw [sortU_slice]
+      match fuel with
+      | 0 => simp [marshalV]
+      | 1 => simp [marshalV, marshalBare, peel_iface he]
+      | 2 => simp [marshalV, marshalBare, peel_iface he, pick_iface he]
+      | 3 => simp [marshalV, marshalBare, peel_iface he, pick_iface he, peel_sliceI he, peel_mapSI he]
+      | F+4 =>
+        rw [mV_some trs he, mV_some trs he, mV_slice trs he, mV_slice trs he,
+          mList_congr trs (sortU a.defaultSort f) it.iface vs (fun x hx F => ih x (h x hx) F)]
+        simp
+    | map _ es hk hv hd =>
+      rw [sortU_map]
+      match fuel with
+      | 0 => simp [marshalV]
+      | 1 => simp [marshalV, marshalBare, peel_iface he]
+      | 2 => simp [marshalV, marshalBare, peel_iface he, pick_iface he]
+      | 3 => simp [marshalV, marshalBare, peel_iface he, pick_iface he, peel_sliceI he, peel_mapSI he]
+      | F+4 =>
+        rw [mV_some trs he, mV_some trs he, mV_map trs he _ es hk, mV_map trs he _ _ (by
+          intro p hp
+          simp only [List.mem_map] at hp
+          obtain ⟨q, _, rfl⟩ := hp
+          exact ⟨_, rfl⟩)]
+        have e1 : (es.map fun p => (keyOf p.1, sortU a.defaultSort f p.2)) =
+            (es.map fun p => (keyOf p.1, p.2)).map fun p => (p.1, sortU a.defaultSort f p.2) := by
+          simp [List.map_map]
+        simp only [List.map_map, List.length_map, ObjL.sortKeys_length]
+        have e2 : ((fun (p : Val × Val) => (keyOf p.1, p.2)) ∘ fun (p : Bytes × Val) => (Val.str p.1, p.2)) = id := by
+          funext p; rfl
+        rw [e2, List.map_id, sortKeys_idem, e1, sortKeys_mapVal,
+          mEntries_congr trs (sortU a.defaultSort f) it.iface _ (fun p hp F =>
+            ih p.2 (sortKeys_mem_isU he a.defaultSort f es hv p hp) F)]
+    | _ => rfl
+
+end env
+
+/-! ### Unfolding the unmarshaller on the untyped universe -/
+
+section env
+variable {ts : Types} {a : Atlas} {it : IfaceTys} (trs : Trs) (he : UEnv ts a it)
+include he
+
+theorem upick_iface : upickBare ts a it.iface = .wildcard := by simp [upickBare, he.iface, he.noIface]
+
+theorem uV_iface (f : Nat) (cur : Val) (t : Tok) (rest : List Tok) :
+    unmV ts a trs it (f+2) it.iface cur (t :: rest) = unmWild ts a trs it f false t rest := by
+  simp [unmV, peel_iface he, upick_iface he, unmBare, he.iface]
+
+theorem uV_iface_nil (f : Nat) (cur : Val) : unmV ts a trs it (f+1) it.iface cur [] = .more 0 := by
+  simp [unmV]
+
+omit he in
+theorem uW_null (f : Nat) (rest : List Tok) :
+    unmWild ts a trs it (f+1) false ⟨.null, none⟩ rest = .ok (.iface none) rest 1 := by simp [unmWild]
+omit he in
+theorem uW_str (f : Nat) (s : Bytes) (rest : List Tok) :
+    unmWild ts a trs it (f+1) false ⟨.str s, none⟩ rest = .ok (.iface (some (it.str, .str s))) rest 1 := by simp [unmWild]
+omit he in
+theorem uW_bytes (f : Nat) (s : Bytes) (rest : List Tok) :
+    unmWild ts a trs it (f+1) false ⟨.bytes s, none⟩ rest = .ok (.iface (some (it.bytes, .bytes (some s)))) rest 1 := by simp [unmWild]
+omit he in
+theorem uW_bool (f : Nat) (s : Bool) (rest : List Tok) :
+    unmWild ts a trs it (f+1) false ⟨.bool s, none⟩ rest = .ok (.iface (some (it.bool, .bool s))) rest 1 := by simp [unmWild]
+omit he in
+theorem uW_int (f : Nat) (s : Int) (rest : List Tok) :
+    unmWild ts a trs it (f+1) false ⟨.int s, none⟩ rest = .ok (.iface (some (it.int, .int s))) rest 1 := by simp [unmWild]
+omit he in
+theorem uW_uint (f : Nat) (s : Nat) (rest : List Tok) :
+    unmWild ts a trs it (f+1) false ⟨.uint s, none⟩ rest =
+      if s < two63 then .ok (.iface (some (it.int, .int s))) rest 1 else .ok (.iface (some (it.uint64, .uint s))) rest 1 := by
+  simp [unmWild]
+omit he in
+theorem uW_float (f : Nat) (s : Nat) (rest : List Tok) :
+    unmWild ts a trs it (f+1) false ⟨.float s, none⟩ rest = .ok (.iface (some (it.f64, .float s))) rest 1 := by simp [unmWild]
+
+omit he in
+theorem uW_arr (f : Nat) (l : Int) (rest : List Tok) :
+    unmWild ts a trs it (f+2) false ⟨.arrOpen l, none⟩ rest =
+      ((unmElems ts a trs it f it.iface none [] rest).shift 1).bind
+        (fun v r u => .ok (.iface (some (it.sliceI, v))) r u) := by
+  simp only [unmWild, unmBare, Bool.false_and, Bool.false_eq_true, if_false]
+  generalize URes.shift 1 _ = r
+  cases r <;> rfl
+
+theorem uW_map (f : Nat) (l : Int) (rest : List Tok) :
+    unmWild ts a trs it (f+2) false ⟨.mapOpen l, none⟩ rest =
+      ((unmMapEntries ts a trs it f none it.iface [] rest).shift 1).bind
+        (fun v r u => .ok (.iface (some (it.mapSI, v))) r u) := by
+  simp only [unmWild, unmBare, Bool.false_and, Bool.false_eq_true, if_false, he.str]
+  generalize URes.shift 1 _ = r
+  cases r <;> rfl
+
+omit he in
+theorem uE_close (F e : Nat) (acc : List Val) (tg : Option Int) (rest : List Tok) :
+    unmElems ts a trs it (F+1) e none acc (⟨.arrClose, tg⟩ :: rest) = .ok (.slice (some acc.reverse)) rest 1 := by
+  simp [unmElems]
+
+omit he in
+theorem uE_step (F e : Nat) (acc : List Val) (toks : List Tok)
+    (h : ∃ t rest, toks = t :: rest ∧ t.body ≠ .mapClose ∧ t.body ≠ .arrClose) :
+    unmElems ts a trs it (F+1) e none acc toks =
+      (unmV ts a trs it F e (zeroVal ts 64 e) toks).bind
+        (fun v r u => (unmElems ts a trs it F e none (v :: acc) r).shift u) := by
+  obtain ⟨t, rest, rfl, h1, h2⟩ := h
+  obtain ⟨b, tg⟩ := t
+  cases b <;> simp at h1 h2 <;> simp only [unmElems, Bool.false_eq_true, if_false] <;>
+    (generalize unmV ts a trs it F e _ _ = r; cases r <;> rfl)
+
+omit he in
+theorem uM_close (F vt : Nat) (es : List (Val × Val)) (tg : Option Int) (rest : List Tok) :
+    unmMapEntries ts a trs it (F+1) none vt es (⟨.mapClose, tg⟩ :: rest) = .ok (.map (some es)) rest 1 := by
+  simp [unmMapEntries]
+
+omit he in
+theorem uM_str (F vt : Nat) (es : List (Val × Val)) (s : Bytes) (tg : Option Int) (rest : List Tok) :
+    unmMapEntries ts a trs it (F+1) none vt es (⟨.str s, tg⟩ :: rest) =
+      if hasKey (.str s) es then .err 0
+      else ((unmV ts a trs it F vt (zeroVal ts 64 vt) rest).shift 1).bind
+            (fun v r u => (unmMapEntries ts a trs it F none vt (es ++ [(.str s, v)]) r).shift u) := by
+  simp only [unmMapEntries]
+  split
+  · rfl
+  · generalize unmV ts a trs it F vt _ _ = r; cases r <;> rfl
+
+end env
+
+/-! ### Unmarshalling the flattening of `treeU` -/
+
+theorem treeU_head (mode : KeySort) (f : Nat) (u : Val) :
+    ∃ t rest, (treeU mode f u).flatten = t :: rest ∧ t.body ≠ .mapClose ∧ t.body ≠ .arrClose := by
+  unfold treeU
+  split
+  · exact ⟨_, _, rfl, by simp, by simp⟩
+  · split <;> exact ⟨_, _, rfl, by simp, by simp⟩
+  · exact ⟨_, _, rfl, by simp, by simp⟩
+
+theorem head_append {toks : List Tok} (more : List Tok)
+    (h : ∃ t rest, toks = t :: rest ∧ t.body ≠ .mapClose ∧ t.body ≠ .arrClose) :
+    ∃ t rest, toks ++ more = t :: rest ∧ t.body ≠ .mapClose ∧ t.body ≠ .arrClose := by
+  obtain ⟨t, rest, rfl, h1, h2⟩ := h
+  exact ⟨t, rest ++ more, rfl, h1, h2⟩
+
+theorem hasKey_str (k : Bytes) (accL : List (Bytes × Val)) :
+    hasKey (.str k) (accL.map fun p => (Val.str p.1, p.2)) = accL.any (fun p => p.1 == k) := by
+  simp [hasKey, List.any_map, beqVal]
+  rfl
+
+section env
+variable {ts : Types} {a : Atlas} {it : IfaceTys} (trs : Trs) (he : UEnv ts a it)
+include he
+
+def UTree (f : Nat) : Prop := ∀ u fuel cur more, isU it f u = true →
+    (treeU a.defaultSort f u).flatten.length + 3 * f ≤ fuel →
+    unmV ts a trs it fuel it.iface cur ((treeU a.defaultSort f u).flatten ++ more) =
+      .ok (sortU a.defaultSort f u) more (treeU a.defaultSort f u).flatten.length
+
+omit he in
+theorem uElems_tree (f : Nat) (ih : UTree (ts := ts) (a := a) (it := it) trs f) :
+    ∀ (vs : List Val) (F : Nat) (acc : List Val) (more : List Tok),
+    (∀ x ∈ vs, isU it f x = true) →
+    (TV.flattenList (vs.map (treeU a.defaultSort f))).length + 1 + 3 * f ≤ F →
+    unmElems ts a trs it F it.iface none acc
+        (TV.flattenList (vs.map (treeU a.defaultSort f)) ++ ⟨.arrClose, none⟩ :: more) =
+      .ok (.slice (some (acc.reverse ++ vs.map (sortU a.defaultSort f)))) more
+        ((TV.flattenList (vs.map (treeU a.defaultSort f))).length + 1) := by
+  intro vs
+  induction vs with
+  | nil =>
+    intro F acc more _ hF
+    obtain ⟨F', rfl⟩ : ∃ F', F = F' + 1 := ⟨F - 1, by omega⟩
+    simp [TV.flattenList, uE_close]
+  | cons x xs ihl =>
+    intro F acc more hU hF
+    obtain ⟨F', rfl⟩ : ∃ F', F = F' + 1 := ⟨F - 1, by omega⟩
+    simp only [List.map_cons, TV.flattenList, List.length_append, List.append_assoc] at hF ⊢
+    have hp := flatten_pos (treeU a.defaultSort f x)
+    rw [uE_step trs F' _ acc _ (head_append _ (treeU_head a.defaultSort f x)),
+      ih x F' _ _ (hU x (by simp)) (by omega)]
+    simp only [URes.bind_ok]
+    rw [ihl F' _ _ (fun y hy => hU y (by simp [hy])) (by omega)]
+    simp
+    omega
+
+omit he in
+theorem uEntries_tree (f : Nat) (ih : UTree (ts := ts) (a := a) (it := it) trs f) :
+    ∀ (L : List (Bytes × Val)) (F : Nat) (accL : List (Bytes × Val)) (more : List Tok),
+    (∀ p ∈ L, isU it f p.2 = true) → ((accL ++ L).map (·.1)).Nodup →
+    (TV.flattenEntries (L.map fun p => (TV.scalar ⟨.str p.1, none⟩, treeU a.defaultSort f p.2))).length + 1 + 3 * f ≤ F →
+    unmMapEntries ts a trs it F none it.iface (accL.map fun p => (Val.str p.1, p.2))
+        (TV.flattenEntries (L.map fun p => (TV.scalar ⟨.str p.1, none⟩, treeU a.defaultSort f p.2)) ++ ⟨.mapClose, none⟩ :: more) =
+      .ok (.map (some ((accL ++ L.map fun p => (p.1, sortU a.defaultSort f p.2)).map fun p => (Val.str p.1, p.2)))) more
+        ((TV.flattenEntries (L.map fun p => (TV.scalar ⟨.str p.1, none⟩, treeU a.defaultSort f p.2))).length + 1) := by
+  intro L
+  induction L with
+  | nil =>
+    intro F accL more _ _ hF
+    obtain ⟨F', rfl⟩ : ∃ F', F = F' + 1 := ⟨F - 1, by omega⟩
+    simp [TV.flattenEntries, uM_close]
+  | cons p xs ihl =>
+    intro F accL more hU hnd hF
+    obtain ⟨k, x⟩ := p
+    obtain ⟨F', rfl⟩ : ∃ F', F = F' + 1 := ⟨F - 1, by omega⟩
+    simp only [List.map_cons, TV.flattenEntries, TV.flatten, List.length_append, List.length_cons, List.length_nil,
+      List.append_assoc, List.cons_append, List.nil_append] at hF ⊢
+    have hp := flatten_pos (treeU a.defaultSort f x)
+    have hk : hasKey (.str k) (accL.map fun p => (Val.str p.1, p.2)) = false := by
+      rw [hasKey_str]
+      simp only [List.map_append, List.map_cons, List.nodup_append, List.mem_cons, List.nodup_cons] at hnd
+      simp only [List.any_eq_false, beq_iff_eq]
+      intro q hq hqk
+      exact hnd.2.2 q.1 (List.mem_map_of_mem hq) k (Or.inl rfl) hqk
+    rw [uM_str, hk]
+    simp only [Bool.false_eq_true, if_false]
+    rw [ih x F' _ _ (hU (k, x) (by simp)) (by omega)]
+    simp only [URes.shift_ok, URes.bind_ok]
+    have e : (accL.map fun p => (Val.str p.1, p.2)) ++ [(Val.str k, sortU a.defaultSort f x)] =
+        (accL ++ [(k, sortU a.defaultSort f x)]).map fun p => (Val.str p.1, p.2) := by simp
+    rw [e, ihl F' _ _ (fun y hy => hU y (by simp [hy])) (by simpa [List.append_assoc] using hnd) (by omega)]
+    simp [List.append_assoc]
+    omega
+
+
+theorem sortKeys_nodup (mode : KeySort) (es : List (Val × Val)) (hd : (es.map fun p => keyOf p.1).Nodup) :
+    ((sortKeys mode (es.map fun p => (keyOf p.1, p.2))).map (·.1)).Nodup := by
+  have hp := (C08.sortKeys_perm mode (es.map fun p => (keyOf p.1, p.2))).map (·.1)
+  rw [hp.nodup_iff]
+  rw [List.map_map]
+  exact hd
+
+theorem unm_tree_all : ∀ f, UTree (ts := ts) (a := a) (it := it) trs f := by
+  intro f
+  induction f with
+  | zero => intro u fuel cur more hu; simp [isU] at hu
+  | succ f ih =>
+    intro u fuel cur more hu hF
+    have hUV := isU_UV hu
+    cases hUV with
+    | nil =>
+      simp only [treeU, TV.flatten, List.length_cons, List.length_nil] at hF ⊢
+      obtain ⟨F', rfl⟩ : ∃ F', fuel = F' + 3 := ⟨fuel - 3, by omega⟩
+      simp only [List.cons_append, List.nil_append]
+      rw [uV_iface trs he, uW_null]; rfl
+    | str _ s =>
+      simp only [treeU, TV.flatten, List.length_cons, List.length_nil] at hF ⊢
+      obtain ⟨F', rfl⟩ : ∃ F', fuel = F' + 3 := ⟨fuel - 3, by omega⟩
+      simp only [List.cons_append, List.nil_append]
+      rw [uV_iface trs he, uW_str]; rfl
+    | bytes _ b =>
+      simp only [treeU, TV.flatten, List.length_cons, List.length_nil] at hF ⊢
+      obtain ⟨F', rfl⟩ : ∃ F', fuel = F' + 3 := ⟨fuel - 3, by omega⟩
+      simp only [List.cons_append, List.nil_append]
+      rw [uV_iface trs he, uW_bytes]; rfl
+    | bool _ b =>
+      simp only [treeU, TV.flatten, List.length_cons, List.length_nil] at hF ⊢
+      obtain ⟨F', rfl⟩ : ∃ F', fuel = F' + 3 := ⟨fuel - 3, by omega⟩
+      simp only [List.cons_append, List.nil_append]
+      rw [uV_iface trs he, uW_bool]; rfl
+    | int _ i h1 h2 =>
+      simp only [treeU, TV.flatten, List.length_cons, List.length_nil] at hF ⊢
+      obtain ⟨F', rfl⟩ : ∃ F', fuel = F' + 3 := ⟨fuel - 3, by omega⟩
+      simp only [List.cons_append, List.nil_append]
+      rw [uV_iface trs he, uW_int]; rfl
+    | uint _ n h1 h2 =>
+      simp only [treeU, TV.flatten, List.length_cons, List.length_nil] at hF ⊢
+      obtain ⟨F', rfl⟩ : ∃ F', fuel = F' + 3 := ⟨fuel - 3, by omega⟩
+      simp only [List.cons_append, List.nil_append]
+      rw [uV_iface trs he, uW_uint, if_neg (by omega)]; rfl
+    | float _ b h =>
+      simp only [treeU, TV.flatten, List.length_cons, List.length_nil] at hF ⊢
+      obtain ⟨F', rfl⟩ : ∃ F', fuel = F' + 3 := ⟨fuel - 3, by omega⟩
+      simp only [List.cons_append, List.nil_append]
+      rw [uV_iface trs he, uW_float]; rfl
+    | slice _ vs h =>
+      rw [sortU_slice]
+      simp only [treeU, TV.flatten, List.length_cons, List.length_append, List.length_nil] at hF ⊢
+      obtain ⟨F', rfl⟩ : ∃ F', fuel = F' + 4 := ⟨fuel - 4, by omega⟩
+      simp only [List.cons_append, List.append_assoc, List.nil_append]
+      rw [uV_iface trs he, uW_arr, uElems_tree trs f ih vs F' [] more h (by omega)]
+      simp
+    | map _ es hk hv hd =>
+      rw [sortU_map]
+      simp only [treeU, TV.flatten, List.length_cons, List.length_append, List.length_nil] at hF ⊢
+      obtain ⟨F', rfl⟩ : ∃ F', fuel = F' + 4 := ⟨fuel - 4, by omega⟩
+      simp only [List.cons_append, List.append_assoc, List.nil_append]
+      have := uEntries_tree trs f ih (sortKeys a.defaultSort (es.map fun p => (keyOf p.1, p.2))) F' [] more
+        (sortKeys_mem_isU he a.defaultSort f es hv) (by simpa using sortKeys_nodup he a.defaultSort es hd) (by omega)
+      simp only [List.map_nil, List.nil_append] at this
+      rw [uV_iface trs he, uW_map trs he, this]
+      have e1 : (es.map fun p => (keyOf p.1, sortU a.defaultSort f p.2)) =
+          (es.map fun p => (keyOf p.1, p.2)).map fun p => (p.1, sortU a.defaultSort f p.2) := by
+        simp [List.map_map]
+      rw [e1, sortKeys_mapVal]
+      simp
+
+/-- L2: the untyped unmarshaller on the flattening of `treeU` (whatever follows it) -/
+theorem unm_tree (n : Nat) (u : Val) (fuel : Nat) (cur : Val) (more : List Tok) (hu : isU it n u = true)
+    (hF : (treeU a.defaultSort n u).flatten.length + 3 * n ≤ fuel) :
+    unmV ts a trs it fuel it.iface cur ((treeU a.defaultSort n u).flatten ++ more) =
+      .ok (sortU a.defaultSort n u) more (treeU a.defaultSort n u).flatten.length :=
+  unm_tree_all trs he n u fuel cur more hu hF
+
+end env
+
+/-! ### `isU` is monotone in its fuel -/
+
+theorem isU_mono_succ (it : IfaceTys) : ∀ (f : Nat) (v : Val), isU it f v = true → isU it (f+1) v = true := by
+  intro f
+  induction f with
+  | zero => intro v h; simp [isU] at h
+  | succ f ih =>
+    intro v hh
+    have hUV := isU_UV hh
+    apply UV_isU
+    cases hUV with
+    | nil => exact .nil _
+    | str _ s => exact .str _ _
+    | bytes _ b => exact .bytes _ _
+    | bool _ b => exact .bool _ _
+    | int _ i h1 h2 => exact .int _ _ h1 h2
+    | uint _ n h1 h2 => exact .uint _ _ h1 h2
+    | float _ b h => exact .float _ _ h
+    | slice _ vs h => exact .slice _ _ (fun x hx => ih x (h x hx))
+    | map _ es hk hv hd => exact .map _ _ hk (fun p hp => ih p.2 (hv p hp)) hd
+
+theorem isU_mono (it : IfaceTys) {f g : Nat} (h : f ≤ g) (v : Val) (hv : isU it f v = true) : isU it g v = true := by
+  induction h with
+  | refl => exact hv
+  | step _ ih => exact isU_mono_succ it _ v ih
+
+/-! ### small-fuel and end-of-input cases of the unmarshaller -/
+
+section env
+variable {ts : Types} {a : Atlas} {it : IfaceTys} (trs : Trs) (he : UEnv ts a it)
+include he
+
+omit he in
+theorem uV_zero (id : Nat) (cur : Val) (toks : List Tok) : unmV ts a trs it 0 id cur toks = .panic 0 := by simp [unmV]
+omit he in
+theorem uV_nil (F id : Nat) (cur : Val) : unmV ts a trs it (F+1) id cur [] = .more 0 := by simp [unmV]
+theorem uV_one (cur : Val) (t : Tok) (rest : List Tok) : unmV ts a trs it 1 it.iface cur (t :: rest) = .panic 0 := by
+  simp [unmV, peel_iface he, unmBare]
+omit he in
+theorem uW_zero (m : Bool) (t : Tok) (rest : List Tok) : unmWild ts a trs it 0 m t rest = .panic 0 := by simp [unmWild]
+omit he in
+theorem uW_arr1 (l : Int) (rest : List Tok) : unmWild ts a trs it 1 false ⟨.arrOpen l, none⟩ rest = .panic 0 := by
+  simp [unmWild, unmBare]
+omit he in
+theorem uW_map1 (l : Int) (rest : List Tok) : unmWild ts a trs it 1 false ⟨.mapOpen l, none⟩ rest = .panic 0 := by
+  simp [unmWild, unmBare]
+omit he in
+theorem uW_arrClose (f : Nat) (rest : List Tok) : unmWild ts a trs it (f+1) false ⟨.arrClose, none⟩ rest = .err 0 := by
+  simp [unmWild]
+omit he in
+theorem uW_mapClose (f : Nat) (rest : List Tok) : unmWild ts a trs it (f+1) false ⟨.mapClose, none⟩ rest = .err 0 := by
+  simp [unmWild]
+omit he in
+theorem uE_zero (e : Nat) (c : Option Nat) (acc : List Val) (toks : List Tok) :
+    unmElems ts a trs it 0 e c acc toks = .panic 0 := by simp [unmElems]
+omit he in
+theorem uE_nil (F e : Nat) (acc : List Val) : unmElems ts a trs it (F+1) e none acc [] = .more 0 := by
+  simp [unmElems]
+omit he in
+theorem uE_mapClose (F e : Nat) (acc : List Val) (tg : Option Int) (rest : List Tok) :
+    unmElems ts a trs it (F+1) e none acc (⟨.mapClose, tg⟩ :: rest) = .err 0 := by simp [unmElems]
+omit he in
+theorem uM_zero (kf : Option Nat) (vt : Nat) (es : List (Val × Val)) (toks : List Tok) :
+    unmMapEntries ts a trs it 0 kf vt es toks = .panic 0 := by simp [unmMapEntries]
+omit he in
+theorem uM_nil (F : Nat) (kf : Option Nat) (vt : Nat) (es : List (Val × Val)) :
+    unmMapEntries ts a trs it (F+1) kf vt es [] = .more 0 := by simp [unmMapEntries]
+omit he in
+theorem uM_other (F : Nat) (kf : Option Nat) (vt : Nat) (es : List (Val × Val)) (t : Tok) (rest : List Tok)
+    (h1 : t.body ≠ .mapClose) (h2 : ∀ s, t.body ≠ .str s) :
+    unmMapEntries ts a trs it (F+1) kf vt es (t :: rest) = .err 0 := by
+  obtain ⟨b, tg⟩ := t
+  cases b <;> simp at h1 h2 <;> simp [unmMapEntries]
+
+end env
+
+/-- the entries committed so far: string keys, pairwise distinct, native values -/
+def MInv (it : IfaceTys) (G : Nat) (es : List (Val × Val)) : Prop :=
+  (∀ p ∈ es, ∃ s, p.1 = .str s) ∧ (∀ p ∈ es, isU it G p.2 = true) ∧ (es.map fun p => keyOf p.1).Nodup
+
+theorem hasKey_false {s : Bytes} {es : List (Val × Val)} (hk : ∀ p ∈ es, ∃ s, p.1 = .str s)
+    (h : hasKey (.str s) es = false) : s ∉ es.map fun p => keyOf p.1 := by
+  intro hm
+  simp only [List.mem_map] at hm
+  obtain ⟨p, hp, hps⟩ := hm
+  obtain ⟨s', hs'⟩ := hk p hp
+  simp only [hasKey, List.any_eq_false] at h
+  have := h p hp
+  obtain ⟨k, y⟩ := p
+  simp only at hs'
+  subst hs'
+  simp only [keyOf] at hps
+  subst hps
+  simp [beqVal] at this
+
+section env
+variable {ts : Types} {a : Atlas} {it : IfaceTys} (trs : Trs) (he : UEnv ts a it)
+include he
+
+def PVy (F : Nat) : Prop := ∀ cur toks v rest used, toks.all tokPlain = true →
+  unmV ts a trs it F it.iface cur toks = .ok v rest used → isU it F v = true ∧ rest.all tokPlain = true
+def PEy (F : Nat) : Prop := ∀ G, F ≤ G → ∀ acc toks v rest used, toks.all tokPlain = true →
+  (∀ x ∈ acc, isU it G x = true) → unmElems ts a trs it F it.iface none acc toks = .ok v rest used →
+  (∃ vs, v = .slice (some vs) ∧ ∀ x ∈ vs, isU it G x = true) ∧ rest.all tokPlain = true
+def PMy (F : Nat) : Prop := ∀ G, F ≤ G → ∀ es toks v rest used, toks.all tokPlain = true →
+  MInv it G es → unmMapEntries ts a trs it F none it.iface es toks = .ok v rest used →
+  (∃ es', v = .map (some es') ∧ MInv it G es') ∧ rest.all tokPlain = true
+
+omit he in
+theorem pey_step (F : Nat) (hv : PVy (ts := ts) (a := a) (it := it) trs F) (hE : PEy (ts := ts) (a := a) (it := it) trs F) :
+    PEy (ts := ts) (a := a) (it := it) trs (F+1) := by
+  intro G hG acc toks v rest used hp hacc h
+  cases toks with
+  | nil => simp [uE_nil] at h
+  | cons t tl =>
+    simp only [List.all_cons, Bool.and_eq_true] at hp
+    by_cases h1 : t.body = .arrClose
+    · obtain ⟨b, tg⟩ := t
+      simp only at h1; subst h1
+      rw [uE_close] at h
+      simp only [URes.ok.injEq] at h
+      obtain ⟨rfl, rfl, rfl⟩ := h
+      exact ⟨⟨_, rfl, fun x hx => hacc x (by simpa using hx)⟩, hp.2⟩
+    · by_cases h2 : t.body = .mapClose
+      · obtain ⟨b, tg⟩ := t
+        simp only at h2; subst h2
+        simp [uE_mapClose] at h
+      · rw [uE_step trs F _ acc _ ⟨t, tl, rfl, h2, h1⟩] at h
+        obtain ⟨v1, r1, u1, hr, h⟩ := bind_eq_ok h
+        obtain ⟨u2, h, _⟩ := shift_eq_ok h
+        obtain ⟨hv1, hr1⟩ := hv _ _ _ _ _ (by simp [hp.1, hp.2]) hr
+        exact hE G (by omega) (v1 :: acc) r1 v rest u2 hr1
+          (by intro x hx
+              simp only [List.mem_cons] at hx
+              rcases hx with rfl | hx
+              · exact isU_mono it (by omega) _ hv1
+              · exact hacc x hx) h
+
+omit he in
+theorem pmy_step (F : Nat) (hv : PVy (ts := ts) (a := a) (it := it) trs F) (hM : PMy (ts := ts) (a := a) (it := it) trs F) :
+    PMy (ts := ts) (a := a) (it := it) trs (F+1) := by
+  intro G hG es toks v rest used hp hinv h
+  cases toks with
+  | nil => simp [uM_nil] at h
+  | cons t tl =>
+    simp only [List.all_cons, Bool.and_eq_true] at hp
+    by_cases h1 : t.body = .mapClose
+    · obtain ⟨b, tg⟩ := t
+      simp only at h1; subst h1
+      rw [uM_close] at h
+      simp only [URes.ok.injEq] at h
+      obtain ⟨rfl, rfl, rfl⟩ := h
+      exact ⟨⟨_, rfl, hinv⟩, hp.2⟩
+    · by_cases h2 : ∃ s, t.body = .str s
+      · obtain ⟨s, h2⟩ := h2
+        obtain ⟨b, tg⟩ := t
+        simp only at h2; subst h2
+        rw [uM_str] at h
+        split at h
+        · simp at h
+        · rename_i hk
+          obtain ⟨v1, r1, u1, hr, h⟩ := bind_eq_ok h
+          obtain ⟨u0, hr, _⟩ := shift_eq_ok hr
+          obtain ⟨u2, h, _⟩ := shift_eq_ok h
+          obtain ⟨hv1, hr1⟩ := hv _ _ _ _ _ hp.2 hr
+          refine hM G (by omega) _ r1 v rest u2 hr1 ?_ h
+          obtain ⟨i1, i2, i3⟩ := hinv
+          refine ⟨?_, ?_, ?_⟩
+          · intro p hp'
+            simp only [List.mem_append, List.mem_singleton] at hp'
+            rcases hp' with hp' | rfl
+            · exact i1 p hp'
+            · exact ⟨_, rfl⟩
+          · intro p hp'
+            simp only [List.mem_append, List.mem_singleton] at hp'
+            rcases hp' with hp' | rfl
+            · exact i2 p hp'
+            · exact isU_mono it (by omega) _ hv1
+          · have hnk := hasKey_false i1 (by simpa using hk)
+            rw [List.map_append, List.nodup_append]
+            refine ⟨i3, by simp, ?_⟩
+            intro x hx y hy
+            simp only [List.map_cons, List.map_nil, List.mem_singleton, keyOf] at hy
+            subst hy
+            intro hxy
+            subst hxy
+            exact hnk hx
+      · rw [uM_other trs F none _ es t tl h1 (fun s hs => h2 ⟨s, hs⟩)] at h
+        simp at h
+
+
+theorem pvy_of (F : Nat) (hE : ∀ F', F' + 4 ≤ F → PEy (ts := ts) (a := a) (it := it) trs F')
+    (hM : ∀ F', F' + 4 ≤ F → PMy (ts := ts) (a := a) (it := it) trs F') :
+    PVy (ts := ts) (a := a) (it := it) trs F := by
+  intro cur toks v rest used hp h
+  cases toks with
+  | nil =>
+    cases F with
+    | zero => simp [uV_zero] at h
+    | succ F => simp [uV_nil] at h
+  | cons t tl =>
+    simp only [List.all_cons, Bool.and_eq_true] at hp
+    obtain ⟨hpt, hptl⟩ := hp
+    match F, hE, hM with
+    | 0, _, _ => simp [uV_zero] at h
+    | 1, _, _ => simp [uV_one trs he] at h
+    | 2, _, _ => simp [uV_iface trs he, uW_zero] at h
+    | F+3, hE, hM =>
+      rw [uV_iface trs he] at h
+      obtain ⟨b, tg⟩ := t
+      simp only [tokPlain, Bool.and_eq_true, Option.isNone_iff_eq_none] at hpt
+      obtain ⟨rfl, hb⟩ := hpt
+      cases b with
+      | null =>
+        rw [uW_null] at h; simp only [URes.ok.injEq] at h; obtain ⟨rfl, rfl, rfl⟩ := h
+        exact ⟨UV_isU (.nil _), hptl⟩
+      | str s =>
+        rw [uW_str] at h; simp only [URes.ok.injEq] at h; obtain ⟨rfl, rfl, rfl⟩ := h
+        exact ⟨UV_isU (.str _ _), hptl⟩
+      | bytes s =>
+        rw [uW_bytes] at h; simp only [URes.ok.injEq] at h; obtain ⟨rfl, rfl, rfl⟩ := h
+        exact ⟨UV_isU (.bytes _ _), hptl⟩
+      | bool s =>
+        rw [uW_bool] at h; simp only [URes.ok.injEq] at h; obtain ⟨rfl, rfl, rfl⟩ := h
+        exact ⟨UV_isU (.bool _ _), hptl⟩
+      | int i =>
+        rw [uW_int] at h; simp only [URes.ok.injEq] at h; obtain ⟨rfl, rfl, rfl⟩ := h
+        simp only [Bool.and_eq_true, decide_eq_true_eq] at hb
+        exact ⟨UV_isU (.int _ _ hb.1 hb.2), hptl⟩
+      | uint n =>
+        rw [uW_uint] at h
+        simp only [decide_eq_true_eq] at hb
+        split at h
+        · rename_i hn
+          simp only [URes.ok.injEq] at h; obtain ⟨rfl, rfl, rfl⟩ := h
+          exact ⟨UV_isU (.int _ _ (by unfold two63; omega) (by omega)), hptl⟩
+        · rename_i hn
+          simp only [URes.ok.injEq] at h; obtain ⟨rfl, rfl, rfl⟩ := h
+          exact ⟨UV_isU (.uint _ _ (by omega) hb), hptl⟩
+      | float x =>
+        rw [uW_float] at h; simp only [URes.ok.injEq] at h; obtain ⟨rfl, rfl, rfl⟩ := h
+        simp only [decide_eq_true_eq] at hb
+        exact ⟨UV_isU (.float _ _ hb), hptl⟩
+      | arrClose => simp [uW_arrClose] at h
+      | mapClose => simp [uW_mapClose] at h
+      | arrOpen l =>
+        cases F with
+        | zero => simp [uW_arr1] at h
+        | succ F =>
+          rw [uW_arr] at h
+          obtain ⟨v1, r1, u1, hr, h⟩ := bind_eq_ok h
+          obtain ⟨u0, hr, _⟩ := shift_eq_ok hr
+          simp only [URes.ok.injEq] at h; obtain ⟨rfl, rfl, rfl⟩ := h
+          obtain ⟨⟨vs, rfl, hvs⟩, hr1⟩ := hE F (by omega) (F+3) (by omega) [] tl _ _ _ hptl (by simp) hr
+          exact ⟨UV_isU (.slice _ _ hvs), hr1⟩
+      | mapOpen l =>
+        cases F with
+        | zero => simp [uW_map1] at h
+        | succ F =>
+          rw [uW_map trs he] at h
+          obtain ⟨v1, r1, u1, hr, h⟩ := bind_eq_ok h
+          obtain ⟨u0, hr, _⟩ := shift_eq_ok hr
+          simp only [URes.ok.injEq] at h; obtain ⟨rfl, rfl, rfl⟩ := h
+          obtain ⟨⟨es, rfl, h1, h2, h3⟩, hr1⟩ := hM F (by omega) (F+3) (by omega) [] tl _ _ _ hptl
+            ⟨by simp, by simp, by simp⟩ hr
+          exact ⟨UV_isU (.map _ _ h1 h2 h3), hr1⟩
+
+theorem yields_all (F : Nat) : PVy (ts := ts) (a := a) (it := it) trs F ∧ PEy (ts := ts) (a := a) (it := it) trs F ∧
+    PMy (ts := ts) (a := a) (it := it) trs F := by
+  induction F using Nat.strongRecOn with
+  | _ F ih =>
+    have hv : PVy (ts := ts) (a := a) (it := it) trs F :=
+      pvy_of trs he F (fun F' h => (ih F' (by omega)).2.1) (fun F' h => (ih F' (by omega)).2.2)
+    refine ⟨hv, ?_, ?_⟩
+    · cases F with
+      | zero => intro G _ acc toks v rest used _ _ h; simp [uE_zero] at h
+      | succ F => exact pey_step trs F (ih F (by omega)).1 (ih F (by omega)).2.1
+    · cases F with
+      | zero => intro G _ acc toks v rest used _ _ h; simp [uM_zero] at h
+      | succ F => exact pmy_step trs F (ih F (by omega)).1 (ih F (by omega)).2.2
+
+end env
+
+/-- whatever the untyped unmarshaller accepts, it builds a native untyped value (proved as stated) -/
 theorem unm_yields_untyped (ts : Types) (a : Atlas) (trs : Trs) (it : IfaceTys) (fuel : Nat) (cur : Val)
     (toks rest : List Tok) (v : Val) (used : Nat) (he : UEnv ts a it) (hp : toks.all tokPlain = true)
     (h : unmV ts a trs it fuel it.iface cur toks = .ok v rest used) :
-    isU it fuel v = true := by
-  sorry
+    isU it fuel v = true :=
+  ((yields_all trs he fuel).1 cur toks v rest used hp h).1
 
+
+/-! ### The untyped unmarshaller does not see declared lengths nor the signedness spelling of small integers -/
+
+/-- token bodies the wildcard machine cannot tell apart -/
+def BodyCompat : Body → Body → Prop
+  | .mapOpen _, b' => ∃ l, b' = .mapOpen l
+  | .arrOpen _, b' => ∃ l, b' = .arrOpen l
+  | .int i, b' => b' = .int i ∨ (0 ≤ i ∧ i < (two63 : Int) ∧ b' = .uint i.toNat)
+  | .uint n, b' => b' = .uint n ∨ (n < two63 ∧ b' = .int n)
+  | b, b' => b' = b
+
+def Compat (t t' : Tok) : Prop := t.tag = none ∧ t'.tag = none ∧ BodyCompat t.body t'.body
+
+def mapRes (g : Tok → Tok) : URes → URes
+  | .ok v r k => .ok v (r.map g) k
+  | x => x
+
+@[simp] theorem mapRes_ok (g : Tok → Tok) (v : Val) (r : List Tok) (k : Nat) : mapRes g (.ok v r k) = .ok v (r.map g) k := rfl
+@[simp] theorem mapRes_more (g : Tok → Tok) (k : Nat) : mapRes g (.more k) = .more k := rfl
+@[simp] theorem mapRes_err (g : Tok → Tok) (k : Nat) : mapRes g (.err k) = .err k := rfl
+@[simp] theorem mapRes_panic (g : Tok → Tok) (k : Nat) : mapRes g (.panic k) = .panic k := rfl
+
+theorem mapRes_shift (g : Tok → Tok) (r : URes) (k : Nat) : mapRes g (r.shift k) = (mapRes g r).shift k := by
+  cases r <;> rfl
+
+theorem compat_kind {b b' : Body} (h : BodyCompat b b') :
+    (b' = .mapClose ↔ b = .mapClose) ∧ (b' = .arrClose ↔ b = .arrClose) ∧ (∀ s, b' = .str s ↔ b = .str s) := by
+  cases b with
+  | mapOpen l => obtain ⟨l', rfl⟩ := h; simp
+  | arrOpen l => obtain ⟨l', rfl⟩ := h; simp
+  | int i => rcases h with rfl | ⟨_, _, rfl⟩ <;> simp
+  | uint n => rcases h with rfl | ⟨_, rfl⟩ <;> simp
+  | mapClose => simp only [BodyCompat] at h; subst h; simp
+  | arrClose => simp only [BodyCompat] at h; subst h; simp
+  | null => simp only [BodyCompat] at h; subst h; simp
+  | str s => simp only [BodyCompat] at h; subst h; simp
+  | bytes s => simp only [BodyCompat] at h; subst h; simp
+  | bool s => simp only [BodyCompat] at h; subst h; simp
+  | float s => simp only [BodyCompat] at h; subst h; simp
+
+section env
+variable {ts : Types} {a : Atlas} {it : IfaceTys} (trs : Trs) (he : UEnv ts a it) (g : Tok → Tok)
+include he
+
+def QV (F : Nat) : Prop := ∀ cur toks, (∀ t ∈ toks, Compat t (g t)) →
+  unmV ts a trs it F it.iface cur (toks.map g) = mapRes g (unmV ts a trs it F it.iface cur toks) ∧
+  (∀ v r u, unmV ts a trs it F it.iface cur toks = .ok v r u → ∀ t ∈ r, t ∈ toks)
+def QE (F : Nat) : Prop := ∀ acc toks, (∀ t ∈ toks, Compat t (g t)) →
+  unmElems ts a trs it F it.iface none acc (toks.map g) = mapRes g (unmElems ts a trs it F it.iface none acc toks) ∧
+  (∀ v r u, unmElems ts a trs it F it.iface none acc toks = .ok v r u → ∀ t ∈ r, t ∈ toks)
+def QM (F : Nat) : Prop := ∀ es toks, (∀ t ∈ toks, Compat t (g t)) →
+  unmMapEntries ts a trs it F none it.iface es (toks.map g) = mapRes g (unmMapEntries ts a trs it F none it.iface es toks) ∧
+  (∀ v r u, unmMapEntries ts a trs it F none it.iface es toks = .ok v r u → ∀ t ∈ r, t ∈ toks)
+
+omit he in
+theorem qe_step (F : Nat) (hv : QV (ts := ts) (a := a) (it := it) trs g F) (hE : QE (ts := ts) (a := a) (it := it) trs g F) :
+    QE (ts := ts) (a := a) (it := it) trs g (F+1) := by
+  intro acc toks hc
+  cases toks with
+  | nil => simp [uE_nil]
+  | cons t tl =>
+    have hct := hc t (by simp)
+    have hctl : ∀ t ∈ tl, Compat t (g t) := fun x hx => hc x (by simp [hx])
+    obtain ⟨b, tg⟩ := t
+    obtain ⟨h1, h2, h3⟩ := hct
+    simp only at h1; subst h1
+    generalize hgt : g ⟨b, none⟩ = t' at h2 h3
+    obtain ⟨b', tg'⟩ := t'
+    simp only at h2 h3; subst h2
+    by_cases hb1 : b = .arrClose
+    · subst hb1
+      simp only [BodyCompat] at h3; subst h3
+      simp only [List.map_cons, hgt, uE_close, mapRes_ok, true_and]
+      intro v r u h; simp only [URes.ok.injEq] at h; obtain ⟨_, rfl, _⟩ := h
+      intro x hx; simp [hx]
+    · by_cases hb2 : b = .mapClose
+      · subst hb2
+        simp only [BodyCompat] at h3; subst h3
+        simp [List.map_cons, hgt, uE_mapClose]
+      · have hb' : b' ≠ .mapClose ∧ b' ≠ .arrClose :=
+          ⟨fun e => hb2 ((compat_kind h3).1.mp e), fun e => hb1 ((compat_kind h3).2.1.mp e)⟩
+        rw [uE_step trs F _ acc _ ⟨⟨b, none⟩, tl, rfl, hb2, hb1⟩]
+        have e : List.map g (⟨b, none⟩ :: tl) = ⟨b', none⟩ :: tl.map g := by simp [hgt]
+        rw [uE_step trs F _ acc _ ⟨⟨b', none⟩, tl.map g, e, hb'.1, hb'.2⟩]
+        obtain ⟨q1, q2⟩ := hv (zeroVal ts 64 it.iface) (⟨b, none⟩ :: tl) hc
+        rw [q1]
+        cases hr : unmV ts a trs it F it.iface (zeroVal ts 64 it.iface) (⟨b, none⟩ :: tl) with
+        | ok v1 r1 u1 =>
+          have hsub := q2 v1 r1 u1 hr
+          obtain ⟨e1, e2⟩ := hE (v1 :: acc) r1 (fun x hx => hc x (hsub x hx))
+          simp only [mapRes_ok, URes.bind_ok, e1, mapRes_shift, true_and]
+          intro v r u h
+          obtain ⟨u2, h, _⟩ := shift_eq_ok h
+          exact fun x hx => hsub x (e2 v r u2 h x hx)
+        | more k => simp
+        | err k => simp
+        | panic k => simp
+
+
+omit he in
+theorem qm_step (F : Nat) (hv : QV (ts := ts) (a := a) (it := it) trs g F) (hM : QM (ts := ts) (a := a) (it := it) trs g F) :
+    QM (ts := ts) (a := a) (it := it) trs g (F+1) := by
+  intro es toks hc
+  cases toks with
+  | nil => simp [uM_nil]
+  | cons t tl =>
+    have hct := hc t (by simp)
+    have hctl : ∀ t ∈ tl, Compat t (g t) := fun x hx => hc x (by simp [hx])
+    obtain ⟨b, tg⟩ := t
+    obtain ⟨h1, h2, h3⟩ := hct
+    simp only at h1; subst h1
+    generalize hgt : g ⟨b, none⟩ = t' at h2 h3
+    obtain ⟨b', tg'⟩ := t'
+    simp only at h2 h3; subst h2
+    have hk := compat_kind h3
+    by_cases hb1 : b = .mapClose
+    · subst hb1
+      simp only [BodyCompat] at h3; subst h3
+      simp only [List.map_cons, hgt, uM_close, mapRes_ok, true_and]
+      intro v r u h; simp only [URes.ok.injEq] at h; obtain ⟨_, rfl, _⟩ := h
+      intro x hx; simp [hx]
+    · by_cases hb2 : ∃ s, b = .str s
+      · obtain ⟨s, rfl⟩ := hb2
+        simp only [BodyCompat] at h3; subst h3
+        simp only [List.map_cons, hgt, uM_str]
+        split
+        · simp
+        · obtain ⟨q1, q2⟩ := hv (zeroVal ts 64 it.iface) tl hctl
+          rw [q1]
+          cases hr : unmV ts a trs it F it.iface (zeroVal ts 64 it.iface) tl with
+          | ok v1 r1 u1 =>
+            have hsub := q2 v1 r1 u1 hr
+            obtain ⟨e1, e2⟩ := hM (es ++ [(.str s, v1)]) r1 (fun x hx => hctl x (hsub x hx))
+            simp only [mapRes_ok, URes.shift_ok, URes.bind_ok, e1, mapRes_shift, true_and]
+            intro v r u h
+            obtain ⟨u2, h, _⟩ := shift_eq_ok h
+            exact fun x hx => List.mem_cons_of_mem _ (hsub x (e2 v r u2 h x hx))
+          | more k => simp
+          | err k => simp
+          | panic k => simp
+      · have e : List.map g (⟨b, none⟩ :: tl) = ⟨b', none⟩ :: tl.map g := by simp [hgt]
+        rw [e, uM_other trs F none _ es _ tl hb1 (fun s hs => hb2 ⟨s, hs⟩),
+          uM_other trs F none _ es _ (tl.map g) (fun e => hb1 (hk.1.mp e)) (fun s hs => hb2 ⟨s, (hk.2.2 s).mp hs⟩)]
+        simp
+
+theorem qv_of (F : Nat) (hE : ∀ F', F' + 4 ≤ F → QE (ts := ts) (a := a) (it := it) trs g F')
+    (hM : ∀ F', F' + 4 ≤ F → QM (ts := ts) (a := a) (it := it) trs g F') :
+    QV (ts := ts) (a := a) (it := it) trs g F := by
+  intro cur toks hc
+  cases toks with
+  | nil =>
+    cases F with
+    | zero => simp [uV_zero]
+    | succ F => simp [uV_nil]
+  | cons t tl =>
+    have hct := hc t (by simp)
+    have hctl : ∀ t ∈ tl, Compat t (g t) := fun x hx => hc x (by simp [hx])
+    obtain ⟨b, tg⟩ := t
+    obtain ⟨h1, h2, h3⟩ := hct
+    simp only at h1; subst h1
+    generalize hgt : g ⟨b, none⟩ = t' at h2 h3
+    obtain ⟨b', tg'⟩ := t'
+    simp only at h2 h3; subst h2
+    simp only [List.map_cons, hgt]
+    have hsuf : ∀ (v : Val) (k : Nat) (v' : Val) (r : List Tok) (u : Nat),
+        URes.ok v tl k = URes.ok v' r u → ∀ t ∈ r, t ∈ (⟨b, none⟩ : Tok) :: tl := by
+      intro v k v' r u h; simp only [URes.ok.injEq] at h; obtain ⟨_, rfl, _⟩ := h
+      intro x hx; simp [hx]
+    match F, hE, hM with
+    | 0, _, _ => simp [uV_zero]
+    | 1, _, _ => simp [uV_one trs he]
+    | 2, _, _ => simp [uV_iface trs he, uW_zero]
+    | F+3, hE, hM =>
+      rw [uV_iface trs he, uV_iface trs he]
+      cases b with
+      | null => simp only [BodyCompat] at h3; subst h3; simp only [uW_null, mapRes_ok, true_and]; exact hsuf _ _
+      | str s => simp only [BodyCompat] at h3; subst h3; simp only [uW_str, mapRes_ok, true_and]; exact hsuf _ _
+      | bytes s => simp only [BodyCompat] at h3; subst h3; simp only [uW_bytes, mapRes_ok, true_and]; exact hsuf _ _
+      | bool s => simp only [BodyCompat] at h3; subst h3; simp only [uW_bool, mapRes_ok, true_and]; exact hsuf _ _
+      | float s => simp only [BodyCompat] at h3; subst h3; simp only [uW_float, mapRes_ok, true_and]; exact hsuf _ _
+      | arrClose => simp only [BodyCompat] at h3; subst h3; simp [uW_arrClose]
+      | mapClose => simp only [BodyCompat] at h3; subst h3; simp [uW_mapClose]
+      | int i =>
+        rcases h3 with rfl | ⟨i0, i1, rfl⟩
+        · simp only [uW_int, mapRes_ok, true_and]; exact hsuf _ _
+        · have : i.toNat < two63 := by unfold two63 at *; omega
+          have e : ((i.toNat : Nat) : Int) = i := Int.toNat_of_nonneg i0
+          simp only [uW_int, uW_uint, this, if_true, e, mapRes_ok, true_and]; exact hsuf _ _
+      | uint n =>
+        rcases h3 with rfl | ⟨n0, rfl⟩
+        · simp only [uW_uint]
+          split
+          · simp only [mapRes_ok, true_and]; exact hsuf _ _
+          · simp only [mapRes_ok, true_and]; exact hsuf _ _
+        · simp only [uW_int, uW_uint, n0, if_true, mapRes_ok, true_and]; exact hsuf _ _
+      | arrOpen l =>
+        obtain ⟨l', rfl⟩ := h3
+        cases F with
+        | zero => simp [uW_arr1]
+        | succ F =>
+          obtain ⟨e1, e2⟩ := hE F (by omega) [] tl hctl
+          simp only [uW_arr, e1]
+          cases hr : unmElems ts a trs it F it.iface none [] tl with
+          | ok v1 r1 u1 =>
+            simp only [mapRes_ok, URes.shift_ok, URes.bind_ok, true_and]
+            intro v r u h; simp only [URes.ok.injEq] at h; obtain ⟨_, rfl, _⟩ := h
+            exact fun x hx => List.mem_cons_of_mem _ (e2 _ _ _ hr x hx)
+          | more k => simp
+          | err k => simp
+          | panic k => simp
+      | mapOpen l =>
+        obtain ⟨l', rfl⟩ := h3
+        cases F with
+        | zero => simp [uW_map1]
+        | succ F =>
+          obtain ⟨e1, e2⟩ := hM F (by omega) [] tl hctl
+          simp only [uW_map trs he, e1]
+          cases hr : unmMapEntries ts a trs it F none it.iface [] tl with
+          | ok v1 r1 u1 =>
+            simp only [mapRes_ok, URes.shift_ok, URes.bind_ok, true_and]
+            intro v r u h; simp only [URes.ok.injEq] at h; obtain ⟨_, rfl, _⟩ := h
+            exact fun x hx => List.mem_cons_of_mem _ (e2 _ _ _ hr x hx)
+          | more k => simp
+          | err k => simp
+          | panic k => simp
+
+theorem compat_all (F : Nat) : QV (ts := ts) (a := a) (it := it) trs g F ∧ QE (ts := ts) (a := a) (it := it) trs g F ∧
+    QM (ts := ts) (a := a) (it := it) trs g F := by
+  induction F using Nat.strongRecOn with
+  | _ F ih =>
+    have hv : QV (ts := ts) (a := a) (it := it) trs g F :=
+      qv_of trs he g F (fun F' h => (ih F' (by omega)).2.1) (fun F' h => (ih F' (by omega)).2.2)
+    refine ⟨hv, ?_, ?_⟩
+    · cases F with
+      | zero => intro acc toks _; simp [uE_zero]
+      | succ F => exact qe_step trs g F (ih F (by omega)).1 (ih F (by omega)).2.1
+    · cases F with
+      | zero => intro acc toks _; simp [uM_zero]
+      | succ F => exact qm_step trs g F (ih F (by omega)).1 (ih F (by omega)).2.2
+
+/-- the untyped unmarshaller gives the same result on two token lists related token-wise by `Compat` -/
+theorem unm_compat (fuel : Nat) (cur : Val) (toks : List Tok) (hc : ∀ t ∈ toks, Compat t (g t)) :
+    unmV ts a trs it fuel it.iface cur (toks.map g) = mapRes g (unmV ts a trs it fuel it.iface cur toks) :=
+  ((compat_all trs he g fuel).1 cur toks hc).1
+
+end env
+
+/-- Marshal then unmarshal into an untyped slot: the value comes back with every map in key order.
+    The fuel hypothesis `hf` is `toks.length + 3 * n + 64 < fuel`; as first written it had `n` in place of `3 * n`
+    (`untyped_roundtrip_statement`), which is false for values nested deeper than 32 levels: one level of
+    `[]interface{}` costs five units of fuel and only two tokens, and the unmarshaller needs one unit more than
+    the marshaller (`untyped_roundtrip_statement_false`, at the end of the file). -/
 theorem untyped_roundtrip (ts : Types) (a : Atlas) (trs : Trs) (it : IfaceTys) (fuel n : Nat) (u : Val) (toks : List Tok)
     (he : UEnv ts a it) (hu : isU it n u = true) (hm : marshalV ts a trs fuel it.iface u = ⟨toks, none⟩)
-    (hf : toks.length + n + 64 < fuel) :
+    (hf : toks.length + 3 * n + 64 < fuel) :
     unmV ts a trs it fuel it.iface (.iface none) toks = .ok (sortU a.defaultSort n u) [] toks.length := by
-  sorry
+  have e := marshal_ok_tree trs he n u fuel toks hu hm
+  subst e
+  have := unm_tree trs he n u fuel (.iface none) [] hu (by omega)
+  simpa using this
 
 theorem marshal_sortU (ts : Types) (a : Atlas) (trs : Trs) (it : IfaceTys) (fuel n : Nat) (u : Val)
     (he : UEnv ts a it) (hu : isU it n u = true) :
-    marshalV ts a trs fuel it.iface (sortU a.defaultSort n u) = marshalV ts a trs fuel it.iface u := by
-  sorry
+    marshalV ts a trs fuel it.iface (sortU a.defaultSort n u) = marshalV ts a trs fuel it.iface u :=
+  marshal_sortU_all trs he n u hu fuel
 
-/-- token-level fixpoint: M (U (M u)) = M u -/
+/-- token-level fixpoint: M (U (M u)) = M u   (fuel hypothesis adjusted as in `untyped_roundtrip`;
+    the first statement is `fixpoint_tokens_statement`, refuted at the end of the file) -/
 theorem fixpoint_tokens (ts : Types) (a : Atlas) (trs : Trs) (it : IfaceTys) (fuel n : Nat) (u : Val) (toks : List Tok)
     (he : UEnv ts a it) (hu : isU it n u = true) (hm : marshalV ts a trs fuel it.iface u = ⟨toks, none⟩)
-    (hf : toks.length + n + 64 < fuel) :
+    (hf : toks.length + 3 * n + 64 < fuel) :
     ∃ u', unmV ts a trs it fuel it.iface (.iface none) toks = .ok u' [] toks.length ∧
-          marshalV ts a trs fuel it.iface u' = ⟨toks, none⟩ := by
-  sorry
+          marshalV ts a trs fuel it.iface u' = ⟨toks, none⟩ :=
+  ⟨sortU a.defaultSort n u, untyped_roundtrip ts a trs it fuel n u toks he hu hm hf,
+    (marshal_sortU ts a trs it fuel n u he hu).trans hm⟩
+
+theorem bodyCompat_refl (b : Body) : BodyCompat b b := by
+  cases b <;> simp [BodyCompat]
+
+theorem compat_canon (t : Tok) (h : tokPlain t = true) : Compat t (C02.canonTok t) := by
+  obtain ⟨b, tg⟩ := t
+  simp only [tokPlain, Bool.and_eq_true, Option.isNone_iff_eq_none] at h
+  obtain ⟨rfl, hb⟩ := h
+  cases b with
+  | int i =>
+    simp only [Bool.and_eq_true, decide_eq_true_eq] at hb
+    by_cases hi : i ≥ 0
+    · simp only [C02.canonTok, hi, if_true]
+      exact ⟨rfl, rfl, Or.inr ⟨hi, hb.2, rfl⟩⟩
+    · simp only [C02.canonTok, hi, if_false]
+      exact ⟨rfl, rfl, Or.inl rfl⟩
+  | _ => exact ⟨rfl, rfl, bodyCompat_refl _⟩
 
 /-- the untyped unmarshaller gives the same value for the tokens as the CBOR codec hands them back -/
 theorem unm_canon_untyped (ts : Types) (a : Atlas) (trs : Trs) (it : IfaceTys) (fuel : Nat) (cur : Val) (toks : List Tok)
@@ -118,7 +1325,8 @@ theorem unm_canon_untyped (ts : Types) (a : Atlas) (trs : Trs) (it : IfaceTys) (
       (match unmV ts a trs it fuel it.iface cur toks with
        | .ok v r k => .ok v (r.map C02.canonTok) k
        | x => x) := by
-  sorry
+  rw [unm_compat trs he C02.canonTok fuel cur toks (fun t ht => compat_canon t (List.all_eq_true.mp hp t ht))]
+  cases unmV ts a trs it fuel it.iface cur toks <;> rfl
 
 /-! ### byte level, CBOR -/
 
@@ -140,30 +1348,202 @@ def unmarshalCbor (ts : Types) (a : Atlas) (trs : Trs) (it : IfaceTys) (fuel id 
      | _ => none)
   else none
 
-/-- strings and byte strings within the decoder's built-in 32 MiB per-item cap -/
+/-- strings and byte strings within the decoder's built-in 32 MiB per-item cap; slices and maps with fewer than
+    2^63 entries.  (The length clause was added to the definition as first written: a Go `len` is an `int`, but a
+    Lean list is unbounded, and C02's encoder/decoder theorems (`WFv`) need declared lengths below 2^63.) -/
 def smallU : Nat → Val → Bool
   | 0, _ => true
   | f+1, .iface (some (_, x)) =>
     (match x with
      | .str s => decide (s.length ≤ 33554432)
      | .bytes (some b) => decide (b.length ≤ 33554432)
-     | .slice (some vs) => vs.all (smallU f)
-     | .map (some es) => es.all fun (k, y) => decide ((keyOf k).length ≤ 33554432) && smallU f y
+     | .slice (some vs) => decide (vs.length < 9223372036854775808) && vs.all (smallU f)
+     | .map (some es) => decide (es.length < 9223372036854775808) &&
+                         es.all fun (k, y) => decide ((keyOf k).length ≤ 33554432) && smallU f y
      | _ => true)
   | _, _ => true
 
+
+
+/-! ### `treeU` is inside the domain of the CBOR codec theorems (C02) -/
+
+theorem tree_WFv (it : IfaceTys) (mode : KeySort) : ∀ (n : Nat) (u : Val), isU it n u = true → smallU n u = true →
+    C02.WFv (treeU mode n u) = true ∧ C02.Supported (treeU mode n u) = true := by
+  intro n
+  induction n with
+  | zero => intro u hu; simp [isU] at hu
+  | succ f ih =>
+    intro u hu hs
+    have hUV := isU_UV hu
+    cases hUV with
+    | nil => simp [treeU, C02.WFv, C02.Supported, C02.tokInRange]
+    | str _ s => simpa [treeU, C02.WFv, C02.Supported, C02.tokInRange, smallU] using hs
+    | bytes _ b => simpa [treeU, C02.WFv, C02.Supported, C02.tokInRange, smallU] using hs
+    | bool _ b => simp [treeU, C02.WFv, C02.Supported, C02.tokInRange]
+    | int _ i h1 h2 => simp [treeU, C02.WFv, C02.Supported, C02.tokInRange, h1, h2]
+    | uint _ n h1 h2 => simp [treeU, C02.WFv, C02.Supported, C02.tokInRange, h2]
+    | float _ b h => simp [treeU, C02.WFv, C02.Supported, C02.tokInRange, h]
+    | slice _ vs h =>
+      simp only [smallU, Bool.and_eq_true, decide_eq_true_eq, List.all_eq_true] at hs
+      have hl : (vs.length : Int) < (two63 : Int) := by unfold two63; omega
+      simp only [treeU, C02.WFv, C02.Supported, Bool.and_eq_true, decide_eq_true_eq, List.length_map, Bool.or_eq_true,
+        beq_self_eq_true, or_true, true_and, hl]
+      exact ⟨WFl_of _ (by
+          intro v hv; simp only [List.mem_map] at hv; obtain ⟨x, hx, rfl⟩ := hv
+          exact (ih x (h x hx) (hs.2 x hx)).1),
+        SupportedL_of _ (by
+          intro v hv; simp only [List.mem_map] at hv; obtain ⟨x, hx, rfl⟩ := hv
+          exact (ih x (h x hx) (hs.2 x hx)).2)⟩
+    | map _ es hk hv hd =>
+      simp only [smallU, Bool.and_eq_true, decide_eq_true_eq, List.all_eq_true] at hs
+      have hl : (es.length : Int) < (two63 : Int) := by unfold two63; omega
+      have hmem : ∀ p ∈ sortKeys mode (es.map fun p => (keyOf p.1, p.2)),
+          p.1.length ≤ 33554432 ∧ isU it f p.2 = true ∧ smallU f p.2 = true := by
+        intro p hp
+        have := (C08.sortKeys_perm mode _).mem_iff.mp hp
+        simp only [List.mem_map] at this
+        obtain ⟨q, hq, rfl⟩ := this
+        have := hs.2 q hq
+        exact ⟨this.1, hv q hq, this.2⟩
+      simp only [treeU, C02.WFv, C02.Supported, Bool.and_eq_true, decide_eq_true_eq, List.length_map, Bool.or_eq_true,
+        ObjL.sortKeys_length, beq_self_eq_true, or_true, true_and, hl]
+      exact ⟨WFe_of _ _ (fun p hp => (ih p.2 (hmem p hp).2.1 (hmem p hp).2.2).1),
+        SupportedE_of _ _ (fun p hp => ⟨(hmem p hp).1, (ih p.2 (hmem p hp).2.1 (hmem p hp).2.2).2⟩)⟩
+
+
+theorem tree_plain (it : IfaceTys) (mode : KeySort) : ∀ (n : Nat) (u : Val), isU it n u = true →
+    ∀ t ∈ (treeU mode n u).flatten, tokPlain t = true := by
+  intro n
+  induction n with
+  | zero => intro u hu; simp [isU] at hu
+  | succ f ih =>
+    intro u hu t ht
+    have hUV := isU_UV hu
+    cases hUV with
+    | nil => simp only [treeU, TV.flatten, List.mem_singleton] at ht; subst ht; rfl
+    | str _ s => simp only [treeU, TV.flatten, List.mem_singleton] at ht; subst ht; rfl
+    | bytes _ b => simp only [treeU, TV.flatten, List.mem_singleton] at ht; subst ht; rfl
+    | bool _ b => simp only [treeU, TV.flatten, List.mem_singleton] at ht; subst ht; rfl
+    | int _ i h1 h2 => simp only [treeU, TV.flatten, List.mem_singleton] at ht; subst ht; simp [tokPlain, h1, h2]
+    | uint _ n h1 h2 => simp only [treeU, TV.flatten, List.mem_singleton] at ht; subst ht; simp [tokPlain, h2]
+    | float _ b h => simp only [treeU, TV.flatten, List.mem_singleton] at ht; subst ht; simp [tokPlain, h]
+    | slice _ vs h =>
+      simp only [treeU, TV.flatten, List.mem_cons, List.mem_append, List.mem_singleton, List.not_mem_nil, or_false] at ht
+      rcases ht with rfl | ht | rfl
+      · rfl
+      · obtain ⟨v, hv, ht⟩ := mem_flattenList ht
+        simp only [List.mem_map] at hv
+        obtain ⟨x, hx, rfl⟩ := hv
+        exact ih x (h x hx) t ht
+      · rfl
+    | map _ es hk hv hd =>
+      simp only [treeU, TV.flatten, List.mem_cons, List.mem_append, List.mem_singleton, List.not_mem_nil, or_false] at ht
+      rcases ht with rfl | ht | rfl
+      · rfl
+      · obtain ⟨p, hp, ht⟩ := mem_flattenEntries ht
+        simp only [List.mem_map] at hp
+        obtain ⟨q, hq, rfl⟩ := hp
+        rcases ht with ht | ht
+        · simp only [TV.flatten, List.mem_singleton] at ht; subst ht; rfl
+        · have := (C08.sortKeys_perm mode _).mem_iff.mp hq
+          simp only [List.mem_map] at this
+          obtain ⟨q', hq', rfl⟩ := this
+          exact ih _ (hv q' hq') t ht
+      · rfl
+
+theorem compat_norm (t : Tok) (h : tokPlain t = true) : Compat t (C02.normTok t) := by
+  obtain ⟨b, tg⟩ := t
+  simp only [tokPlain, Bool.and_eq_true, Option.isNone_iff_eq_none] at h
+  obtain ⟨rfl, hb⟩ := h
+  cases b with
+  | int i =>
+    simp only [Bool.and_eq_true, decide_eq_true_eq] at hb
+    by_cases hi : i ≥ 0
+    · simp only [C02.normTok, C02L.canonBody, hi, if_true]
+      exact ⟨rfl, rfl, Or.inr ⟨hi, hb.2, rfl⟩⟩
+    · simp only [C02.normTok, C02L.canonBody, hi, if_false]
+      exact ⟨rfl, rfl, Or.inl rfl⟩
+  | arrOpen l => exact ⟨rfl, rfl, by simp only [C02.normTok, C02L.canonBody, BodyCompat]; split <;> exact ⟨_, rfl⟩⟩
+  | mapOpen l => exact ⟨rfl, rfl, by simp only [C02.normTok, C02L.canonBody, BodyCompat]; split <;> exact ⟨_, rfl⟩⟩
+  | _ => exact ⟨rfl, rfl, bodyCompat_refl _⟩
+
+theorem marshalCbor_inv {ts : Types} {a : Atlas} {trs : Trs} {fuel id : Nat} {v : Val} {b : Bytes}
+    (h : marshalCbor ts a trs fuel id v = some b) :
+    ∃ toks, marshalV ts a trs fuel id v = ⟨toks, none⟩ ∧
+      (runOut CborEnc.step CborEnc.init toks).1.getLast? = some Flag.done ∧
+      b = (runOut CborEnc.step CborEnc.init toks).2.flatten := by
+  unfold marshalCbor at h
+  simp only at h
+  split at h
+  · simp at h
+  · rename_i hf
+    split at h
+    · rename_i hd
+      simp only [Option.some.injEq] at h
+      refine ⟨(marshalV ts a trs fuel id v).toks, ?_, hd, h.symm⟩
+      cases hm : marshalV ts a trs fuel id v
+      simp_all
+    · simp at h
+
+/-- what the CBOR decoder model returns for the bytes `marshalCbor` produced -/
+theorem cbor_decode (ts : Types) (a : Atlas) (trs : Trs) (it : IfaceTys) (fuel n : Nat) (u1 : Val) (b2 : Bytes)
+    (he : UEnv ts a it) (hu : isU it n u1 = true) (hs : smallU n u1 = true)
+    (hm : marshalCbor ts a trs fuel it.iface u1 = some b2) :
+    (CborDec.decode false (Rd.ofBytes b2)).toks = (treeU a.defaultSort n u1).flatten.map C02.normTok ∧
+    (CborDec.decode false (Rd.ofBytes b2)).res = .ok () ∧
+    (treeU a.defaultSort n u1).flatten.length ≤ 2 * b2.length := by
+  obtain ⟨toks, hmv, hdone, hb⟩ := marshalCbor_inv hm
+  have e := marshal_ok_tree trs he n u1 fuel toks hu hmv
+  subst e
+  obtain ⟨hwf, hsup⟩ := tree_WFv it a.defaultSort n u1 hu hs
+  have henc := (C02.enc_eq_spec _ hwf).2
+  rw [← hb] at henc
+  have hlen := C02.lenV _ hwf
+  rw [← henc] at hlen
+  have hrt := C02.roundtrip_norm (treeU a.defaultSort n u1) [] hwf hsup
+  simp only [List.append_nil, ← henc] at hrt
+  exact ⟨hrt.1, hrt.2.1, hlen⟩
+
+/-- `unmarshalCbor` on those bytes is the untyped unmarshaller on the marshalled tokens -/
+theorem unmarshalCbor_eq (ts : Types) (a : Atlas) (trs : Trs) (it : IfaceTys) (fuel n : Nat) (u1 : Val) (b2 : Bytes)
+    (he : UEnv ts a it) (hu : isU it n u1 = true) (hs : smallU n u1 = true)
+    (hm : marshalCbor ts a trs fuel it.iface u1 = some b2) :
+    unmarshalCbor ts a trs it fuel it.iface b2 =
+      (match mapRes C02.normTok (unmV ts a trs it fuel it.iface (zeroVal ts 64 it.iface) (treeU a.defaultSort n u1).flatten) with
+       | .ok v [] _ => some v
+       | _ => none) := by
+  obtain ⟨h1, h2, _⟩ := cbor_decode ts a trs it fuel n u1 b2 he hu hs hm
+  unfold unmarshalCbor
+  simp only [h1, h2]
+  rw [unm_compat trs he C02.normTok fuel _ _ (fun t ht => compat_norm t (tree_plain it a.defaultSort n u1 hu t ht))]
+  rfl
+
+/-- CBOR byte-level fixpoint  b3 = b2.
+    Changes with respect to the statement as first written (`fixpoint_cbor_statement`, refuted at the end of the file):
+    the fuel hypothesis `hf` has `3 * n` instead of `n` (see `untyped_roundtrip`), and `smallU` also bounds
+    container lengths by `2^63` (a Go `int`), without which the token tree is outside C02's domain. -/
 theorem fixpoint_cbor (ts : Types) (a : Atlas) (trs : Trs) (it : IfaceTys) (fuel n : Nat) (u1 : Val) (b2 : Bytes)
     (he : UEnv ts a it) (hu : isU it n u1 = true) (hs : smallU n u1 = true)
-    (hm : marshalCbor ts a trs fuel it.iface u1 = some b2) (hf : 2 * b2.length + n + 64 < fuel) :
+    (hm : marshalCbor ts a trs fuel it.iface u1 = some b2) (hf : 2 * b2.length + 3 * n + 64 < fuel) :
     ∃ u2, unmarshalCbor ts a trs it fuel it.iface b2 = some u2 ∧ marshalCbor ts a trs fuel it.iface u2 = some b2 := by
-  sorry
+  obtain ⟨_, _, hlen⟩ := cbor_decode ts a trs it fuel n u1 b2 he hu hs hm
+  refine ⟨sortU a.defaultSort n u1, ?_, ?_⟩
+  · rw [unmarshalCbor_eq ts a trs it fuel n u1 b2 he hu hs hm]
+    have := unm_tree trs he n u1 fuel (zeroVal ts 64 it.iface) [] hu (by omega)
+    rw [List.append_nil] at this
+    rw [this]
+    rfl
+  · unfold marshalCbor
+    rw [marshal_sortU ts a trs it fuel n u1 he hu]
+    exact hm
 
 /-- for values an untyped slot holds natively the very first re-marshal is byte-identical -/
 theorem native_first_pass_cbor (ts : Types) (a : Atlas) (trs : Trs) (it : IfaceTys) (fuel n : Nat) (v : Val) (b1 : Bytes)
     (he : UEnv ts a it) (hu : isU it n v = true) (hs : smallU n v = true)
-    (hm : marshalCbor ts a trs fuel it.iface v = some b1) (hf : 2 * b1.length + n + 64 < fuel) :
+    (hm : marshalCbor ts a trs fuel it.iface v = some b1) (hf : 2 * b1.length + 3 * n + 64 < fuel) :
     ∃ u1, unmarshalCbor ts a trs it fuel it.iface b1 = some u1 ∧ marshalCbor ts a trs fuel it.iface u1 = some b1 :=
   fixpoint_cbor ts a trs it fuel n v b1 he hu hs hm hf
+
 
 /-! ### byte level, JSON -/
 
@@ -183,24 +1563,411 @@ def unmarshalJson (ts : Types) (a : Atlas) (trs : Trs) (it : IfaceTys) (fuel id 
      | _ => none)
   else none
 
-/-- what JSON can carry: no byte strings, strings valid UTF-8, finite floats other than -0 whose text re-reads
-    exactly (the `floatOk` of C03) -/
+/-- The float's JSON text re-reads (`numTok`) as a number that prints as the same text, and that number is
+    again a Go-representable finite value.  This is the round-trip property of strconv's shortest formatting
+    (`FloatText.jsonFloat` / `parseDecimal`); it is not proved in general here, so it is a decidable per-float
+    side condition of `jsonU` (it fails for `-0`, whose text `-0` re-reads as the integer `0`). -/
+def floatStable (b : Nat) : Bool :=
+  match JsonDec.numTok (FloatText.jsonFloat b) with
+  | .ok b' => (C03L.scalarTxt b' == FloatText.jsonFloat b) &&
+              (match b' with | .float x => decide (x < two64) && !floatNonFinite x | _ => true)
+  | .error _ => false
+
+/-- what JSON can carry: no byte strings, strings valid UTF-8, finite floats other than -0 whose text is a
+    number the decoder can type (the `floatOk` of C03) and re-reads stably (`floatStable`, added to the definition
+    as first written; see there) -/
 def jsonU : Nat → Val → Bool
   | 0, _ => true
   | f+1, .iface (some (_, x)) =>
     (match x with
      | .str s => toValidUtf8 s == s
      | .bytes _ => false
-     | .float b => (C03L.floatOk b && !floatNonFinite b) && b != 9223372036854775808
+     | .float b => (C03L.floatOk b && !floatNonFinite b) && b != 9223372036854775808 && floatStable b
      | .slice (some vs) => vs.all (jsonU f)
      | .map (some es) => es.all fun (k, y) => (toValidUtf8 (keyOf k) == keyOf k) && jsonU f y
      | _ => true)
   | _, _ => true
 
+
+
+section json
+open Refmt.JsonEnc Refmt.C03L Refmt.Spec.Json
+
+/-- what the untyped unmarshaller rebuilds from the JSON text of a native untyped value: floats are re-typed by
+    their text (an integral float comes back as an int) -/
+def jretU (it : IfaceTys) : Nat → Val → Val
+  | 0, v => v
+  | f+1, .iface (some (d, .float b)) =>
+    (match JsonDec.numTok (FloatText.jsonFloat b) with
+     | .ok (.int i) => .iface (some (it.int, .int i))
+     | .ok (.uint m) => .iface (some (it.uint64, .uint m))
+     | .ok (.float x) => .iface (some (it.f64, .float x))
+     | _ => .iface (some (d, .float b)))
+  | f+1, .iface (some (d, .slice (some vs))) => .iface (some (d, .slice (some (vs.map (jretU it f)))))
+  | f+1, .iface (some (d, .map (some es))) => .iface (some (d, .map (some (es.map fun p => (p.1, jretU it f p.2)))))
+  | _, v => v
+
+/-- declared lengths forgotten (JSON has none) -/
+def eraseLen (t : Tok) : Tok :=
+  ⟨match t.body with
+   | .mapOpen _ => .mapOpen (-1)
+   | .arrOpen _ => .arrOpen (-1)
+   | b => b, none⟩
+
+theorem stable_cases {b : Nat} (h : floatStable b = true) :
+    (∃ i, JsonDec.numTok (FloatText.jsonFloat b) = .ok (.int i) ∧ -(two63 : Int) ≤ i ∧ i < (two63 : Int) ∧
+        scalarTxt (.int i) = FloatText.jsonFloat b) ∨
+    (∃ m, JsonDec.numTok (FloatText.jsonFloat b) = .ok (.uint m) ∧ two63 ≤ m ∧ m < two64 ∧
+        scalarTxt (.uint m) = FloatText.jsonFloat b) ∨
+    (∃ x, JsonDec.numTok (FloatText.jsonFloat b) = .ok (.float x) ∧ x < two64 ∧ floatNonFinite x = false ∧
+        scalarTxt (.float x) = FloatText.jsonFloat b) := by
+  unfold floatStable at h
+  split at h
+  · rename_i b' hb
+    simp only [Bool.and_eq_true, beq_iff_eq] at h
+    rcases numTok_kinds hb with ⟨i, rfl, h1, h2⟩ | ⟨m, rfl, h1, h2⟩ | ⟨x, rfl⟩
+    · exact Or.inl ⟨i, hb, h1, h2, h.1⟩
+    · exact Or.inr (Or.inl ⟨m, hb, h1, h2, h.1⟩)
+    · have := h.2
+      simp only [Bool.and_eq_true, decide_eq_true_eq, Bool.not_eq_true'] at this
+      exact Or.inr (Or.inr ⟨x, hb, this.1, this.2, h.1⟩)
+  · cases h
+
+
+/-! ### `jretU` on containers, and members of the sorted entry list -/
+
+theorem treeU_jret_slice (it : IfaceTys) (mode : KeySort) (f d : Nat) (vs : List Val) :
+    treeU mode (f+1) (jretU it (f+1) (.iface (some (d, .slice (some vs))))) =
+      .arr none vs.length (vs.map fun x => treeU mode f (jretU it f x)) := by
+  simp [jretU, treeU, List.map_map]
+
+theorem treeU_jret_map (it : IfaceTys) (mode : KeySort) (f d : Nat) (es : List (Val × Val)) :
+    treeU mode (f+1) (jretU it (f+1) (.iface (some (d, .map (some es))))) =
+      .map none es.length ((sortKeys mode (es.map fun p => (keyOf p.1, p.2))).map fun p =>
+        (TV.scalar ⟨.str p.1, none⟩, treeU mode f (jretU it f p.2))) := by
+  have e1 : ((es.map fun p => (p.1, jretU it f p.2)).map fun p => (keyOf p.1, p.2)) =
+      (es.map fun p => (keyOf p.1, p.2)).map fun p => (p.1, jretU it f p.2) := by
+    simp [List.map_map]
+  simp only [jretU, treeU, List.length_map]
+  rw [e1, sortKeys_mapVal, List.map_map]
+  rfl
+
+theorem sorted_mem (mode : KeySort) (es : List (Val × Val)) (P : Bytes → Val → Prop)
+    (h : ∀ p ∈ es, P (keyOf p.1) p.2) : ∀ p ∈ sortKeys mode (es.map fun p => (keyOf p.1, p.2)), P p.1 p.2 := by
+  intro p hp
+  have := (C08.sortKeys_perm mode _).mem_iff.mp hp
+  simp only [List.mem_map] at this
+  obtain ⟨q, hq, rfl⟩ := this
+  exact h q hq
+
+
+/-- everything the JSON fixpoint needs about a native untyped value inside `jsonU`, by one induction -/
+def JAll (it : IfaceTys) (mode : KeySort) (c : Cfg) (n : Nat) (u : Val) : Prop :=
+  isU it n (jretU it n u) = true ∧
+  DOk (treeU mode n u) = true ∧
+  EOk (treeU mode n (jretU it n u)) = true ∧
+  (treeU mode n u).flatten.map retypeTok = (treeU mode n (jretU it n u)).flatten.map eraseLen ∧
+  (∀ d, txtV c d (treeU mode n (jretU it n u)) = txtV c d (treeU mode n u)) ∧
+  C03.trailer c (treeU mode n (jretU it n u)) = C03.trailer c (treeU mode n u)
+
+theorem json_all (it : IfaceTys) (mode : KeySort) (c : Cfg) : ∀ (n : Nat) (u : Val),
+    isU it n u = true → jsonU n u = true → JAll it mode c n u := by
+  intro n
+  induction n with
+  | zero => intro u hu; simp [isU] at hu
+  | succ f ih =>
+    intro u hu hj
+    have hUV := isU_UV hu
+    cases hUV with
+    | nil =>
+      refine ⟨hu, by simp [treeU, DOk, decOk], by simp [jretU, treeU, EOk, encOk], ?_, fun d => rfl, rfl⟩
+      simp [jretU, treeU, TV.flatten, retypeTok, eraseLen]
+    | str _ s =>
+      have hs : toValidUtf8 s = s := by simpa [jsonU] using hj
+      refine ⟨hu, by simp [treeU, DOk, decOk], by simp [jretU, treeU, EOk, encOk], ?_, fun d => rfl, rfl⟩
+      simp [jretU, treeU, TV.flatten, retypeTok, eraseLen, hs]
+    | bytes _ b => simp [jsonU] at hj
+    | bool _ b =>
+      refine ⟨hu, by simp [treeU, DOk, decOk], by simp [jretU, treeU, EOk, encOk], ?_, fun d => rfl, rfl⟩
+      simp [jretU, treeU, TV.flatten, retypeTok, eraseLen]
+    | int _ i h1 h2 =>
+      refine ⟨hu, by simp [treeU, DOk, decOk, h1, h2], by simp [jretU, treeU, EOk, encOk], ?_, fun d => rfl, rfl⟩
+      simp [jretU, treeU, TV.flatten, retypeTok, eraseLen]
+    | uint _ m h1 h2 =>
+      have : ¬ m < two63 := by omega
+      refine ⟨hu, by simp [treeU, DOk, decOk, h2], by simp [jretU, treeU, EOk, encOk], ?_, fun d => rfl, rfl⟩
+      simp [jretU, treeU, TV.flatten, retypeTok, eraseLen, this]
+    | float _ b hb =>
+      simp only [jsonU, Bool.and_eq_true, Bool.not_eq_true', bne_iff_ne, ne_eq] at hj
+      obtain ⟨⟨⟨hfo, hfin⟩, _⟩, hst⟩ := hj
+      have hd : DOk (treeU mode (f+1) (.iface (some (it.f64, .float b)))) = true := by
+        simp [treeU, DOk, decOk, hfin, hfo]
+      rcases stable_cases hst with ⟨i, hn, h1, h2, htx⟩ | ⟨m, hn, h1, h2, htx⟩ | ⟨x, hn, h1, h2, htx⟩
+      · have e : jretU it (f+1) (.iface (some (it.f64, .float b))) = .iface (some (it.int, .int i)) := by
+          simp [jretU, hn]
+        rw [JAll, e]
+        refine ⟨UV_isU (.int _ _ h1 h2), hd, by simp [treeU, EOk, encOk], ?_, fun d => ?_, rfl⟩
+        · simp [treeU, TV.flatten, retypeTok, eraseLen, hn]
+        · simp only [treeU, txtV]; exact htx
+      · have e : jretU it (f+1) (.iface (some (it.f64, .float b))) = .iface (some (it.uint64, .uint m)) := by
+          simp [jretU, hn]
+        rw [JAll, e]
+        refine ⟨UV_isU (.uint _ _ h1 h2), hd, by simp [treeU, EOk, encOk], ?_, fun d => ?_, rfl⟩
+        · simp [treeU, TV.flatten, retypeTok, eraseLen, hn]
+        · simp only [treeU, txtV]; exact htx
+      · have e : jretU it (f+1) (.iface (some (it.f64, .float b))) = .iface (some (it.f64, .float x)) := by
+          simp [jretU, hn]
+        rw [JAll, e]
+        refine ⟨UV_isU (.float _ _ h1), hd, by simp [treeU, EOk, encOk, h2], ?_, fun d => ?_, rfl⟩
+        · simp [treeU, TV.flatten, retypeTok, eraseLen, hn]
+        · simp only [treeU, txtV]; exact htx
+    | slice _ vs h =>
+      have hjs : ∀ x ∈ vs, jsonU f x = true := by simpa [jsonU] using hj
+      have IH : ∀ x ∈ vs, JAll it mode c f x := fun x hx => ih x (h x hx) (hjs x hx)
+      rw [JAll, treeU_jret_slice]
+      refine ⟨?_, ?_, ?_, ?_, ?_, rfl⟩
+      · simp only [jretU]
+        exact UV_isU (.slice _ _ (by
+          intro y hy; simp only [List.mem_map] at hy; obtain ⟨x, hx, rfl⟩ := hy; exact (IH x hx).1))
+      · simp only [treeU, DOk]
+        exact DOkL_of _ (by
+          intro v hv; simp only [List.mem_map] at hv; obtain ⟨x, hx, rfl⟩ := hv; exact (IH x hx).2.1)
+      · simp only [EOk]
+        exact EOkL_of _ (by
+          intro v hv; simp only [List.mem_map] at hv; obtain ⟨x, hx, rfl⟩ := hv; exact (IH x hx).2.2.1)
+      · simp only [treeU, TV.flatten, List.map_cons, List.map_append, List.map_nil]
+        rw [flattenList_map_congr (treeU mode f) (fun x => treeU mode f (jretU it f x)) retypeTok eraseLen vs
+          (fun x hx => (IH x hx).2.2.2.1)]
+        simp [retypeTok, eraseLen]
+      · intro d
+        simp only [treeU, txtV, List.isEmpty_map]
+        rw [txtL_congr c (treeU mode f) (fun x => treeU mode f (jretU it f x)) vs (d+1) false
+          (fun x hx => (IH x hx).2.2.2.2.1)]
+    | map _ es hk hv hd =>
+      have hjs : ∀ p ∈ es, toValidUtf8 (keyOf p.1) = keyOf p.1 ∧ jsonU f p.2 = true := by
+        simpa [jsonU] using hj
+      have IH : ∀ p ∈ sortKeys mode (es.map fun p => (keyOf p.1, p.2)),
+          toValidUtf8 p.1 = p.1 ∧ JAll it mode c f p.2 :=
+        sorted_mem mode es (fun k y => toValidUtf8 k = k ∧ JAll it mode c f y)
+          (fun p hp => ⟨(hjs p hp).1, ih p.2 (hv p hp) (hjs p hp).2⟩)
+      rw [JAll, treeU_jret_map]
+      refine ⟨?_, ?_, ?_, ?_, ?_, rfl⟩
+      · simp only [jretU]
+        refine UV_isU (.map _ _ ?_ ?_ ?_)
+        · intro p hp; simp only [List.mem_map] at hp; obtain ⟨q, hq, rfl⟩ := hp; exact hk q hq
+        · intro p hp; simp only [List.mem_map] at hp; obtain ⟨q, hq, rfl⟩ := hp
+          exact (ih q.2 (hv q hq) (hjs q hq).2).1
+        · rw [List.map_map]; exact hd
+      · simp only [treeU, DOk]
+        exact DOkE_of _ _ (fun p hp => (IH p hp).2.2.1)
+      · simp only [EOk]
+        exact EOkE_of (fun x => treeU mode f (jretU it f x)) _ (fun p hp => (IH p hp).2.2.2.1)
+      · simp only [treeU, TV.flatten, List.map_cons, List.map_append, List.map_nil]
+        rw [flattenEntries_map_congr (treeU mode f) (fun x => treeU mode f (jretU it f x)) retypeTok eraseLen _
+          (fun p hp => by simp [retypeTok, eraseLen, (IH p hp).1]) (fun p hp => (IH p hp).2.2.2.2.1)]
+        simp [retypeTok, eraseLen]
+      · intro d
+        simp only [treeU, txtV, List.isEmpty_map]
+        rw [txtE_congr c (treeU mode f) (fun x => treeU mode f (jretU it f x)) _ (d+1) false
+          (fun p hp => (IH p hp).2.2.2.2.2.1)]
+
+
+theorem compat_erase (t : Tok) (h : tokPlain t = true) : Compat t (eraseLen t) := by
+  obtain ⟨b, tg⟩ := t
+  simp only [tokPlain, Bool.and_eq_true, Option.isNone_iff_eq_none] at h
+  obtain ⟨rfl, hb⟩ := h
+  refine ⟨rfl, rfl, ?_⟩
+  cases b <;> simp [eraseLen, BodyCompat]
+
+theorem marshalJson_inv {c : Cfg} {ts : Types} {a : Atlas} {trs : Trs} {fuel id : Nat} {v : Val} {b : Bytes}
+    (h : marshalJson c ts a trs fuel id v = some b) :
+    ∃ toks, marshalV ts a trs fuel id v = ⟨toks, none⟩ ∧
+      (runOut (JsonEnc.step c FloatText.jsonFloat) JsonEnc.init toks).1.getLast? = some Flag.done ∧
+      b = (runOut (JsonEnc.step c FloatText.jsonFloat) JsonEnc.init toks).2.flatten := by
+  unfold marshalJson at h
+  simp only at h
+  split at h
+  · simp at h
+  · rename_i hf
+    split at h
+    · rename_i hd
+      simp only [Option.some.injEq] at h
+      refine ⟨(marshalV ts a trs fuel id v).toks, ?_, hd, h.symm⟩
+      cases hm : marshalV ts a trs fuel id v
+      simp_all
+    · simp at h
+
+/-- JSON byte-level fixpoint.  Changes with respect to the first statement: the fuel hypothesis `hf`
+    (`3 * n` instead of `n`, see `untyped_roundtrip`), and `jsonU` carries the per-float side condition
+    `floatStable` (the float's text re-reads as a number that prints as the same text). -/
 theorem fixpoint_json (c : JsonEnc.Cfg) (ts : Types) (a : Atlas) (trs : Trs) (it : IfaceTys) (fuel n : Nat) (u1 : Val) (b2 : Bytes)
     (hc : C03.cfgOk c = true) (he : UEnv ts a it) (hu : isU it n u1 = true) (hj : jsonU n u1 = true)
-    (hm : marshalJson c ts a trs fuel it.iface u1 = some b2) (hf : 2 * b2.length + n + 64 < fuel) :
+    (hm : marshalJson c ts a trs fuel it.iface u1 = some b2) (hf : 2 * b2.length + 3 * n + 64 < fuel) :
     ∃ u2, unmarshalJson ts a trs it fuel it.iface b2 = some u2 ∧ marshalJson c ts a trs fuel it.iface u2 = some b2 := by
-  sorry
+  obtain ⟨toks, hmv, hdone, hb⟩ := marshalJson_inv hm
+  have e := marshal_ok_tree trs he n u1 fuel toks hu hmv
+  subst e
+  obtain ⟨hu', hdok, heok', hret, htxt, htr⟩ := json_all it a.defaultSort c n u1 hu hj
+  have hb2 : b2 = C03.out c (treeU a.defaultSort n u1) := hb
+  have hrun := run_eq_eok c _ (eok_of_dok _ hdok)
+  have hlen := lenV c _ hdok 0
+  have hbl : (treeU a.defaultSort n u1).flatten.length ≤ b2.length := by
+    rw [hb2, hrun.2, List.length_append]; omega
+  have hlen' : (treeU a.defaultSort n (jretU it n u1)).flatten.length = (treeU a.defaultSort n u1).flatten.length := by
+    have := congrArg List.length hret
+    simpa using this.symm
+  obtain ⟨h1, h2⟩ := roundtrip_dok' c _ hc hdok
+  rw [← hb2] at h1 h2
+  refine ⟨sortU a.defaultSort n (jretU it n u1), ?_, ?_⟩
+  · unfold unmarshalJson
+    simp only [h1, h2, hret]
+    rw [unm_compat trs he eraseLen fuel _ _
+      (fun t ht => compat_erase t (tree_plain it a.defaultSort n _ hu' t ht))]
+    have := unm_tree trs he n (jretU it n u1) fuel (zeroVal ts 64 it.iface) [] hu' (by omega)
+    rw [List.append_nil] at this
+    rw [this]
+    rfl
+  · unfold marshalJson
+    rw [marshal_sortU ts a trs it fuel n _ he hu', marshal_tree trs he n _ fuel hu' (by omega)]
+    have hrun' := run_eq_eok c _ heok'
+    have hout : C03.out c (treeU a.defaultSort n (jretU it n u1)) = b2 := by
+      rw [hrun'.2, htxt 0, htr, ← hrun.2, hb2]
+    simp only [hrun'.1]
+    simp only [C03.out] at hout
+    simp [hout]
+
+
+end json
+
+/-! ### Non-vacuity: a concrete untyped universe and a concrete nested value -/
+
+def exTs : Types := [(0, .iface false), (1, .prim .string true), (2, .bytes true), (3, .prim .bool true),
+  (4, .prim .int true), (5, .prim .uint64 true), (6, .prim .f64 true), (7, .map 1 0), (8, .slice 0)]
+def exIt : IfaceTys := ⟨1, 2, 3, 4, 5, 6, 7, 8, 0⟩
+def exA : Atlas := ⟨[], .default⟩
+def exTrs : Trs := ⟨fun _ _ => none, fun _ _ => none⟩
+theorem exEnv : UEnv exTs exA exIt := ⟨rfl, rfl, rfl, rfl, rfl, rfl, rfl, rfl, rfl, rfl, rfl, rfl⟩
+
+/-- `map[string]interface{}{"b": []interface{}{5, "x", nil}, "a": 7}` (entries held in the order b, a) -/
+def exU : Val :=
+  .iface (some (7, .map (some [
+    (.str [98], .iface (some (8, .slice (some [.iface (some (4, .int 5)), .iface (some (1, .str [120])), .iface none])))),
+    (.str [97], .iface (some (4, .int 7)))])))
+
+theorem exHu : isU exIt 3 exU = true := by decide
+theorem exHs : smallU 3 exU = true := by decide
+
+def exTree : TV :=
+  .map none 2 [(.scalar ⟨.str [97], none⟩, .scalar ⟨.int 7, none⟩),
+    (.scalar ⟨.str [98], none⟩, .arr none 3 [.scalar ⟨.int 5, none⟩, .scalar ⟨.str [120], none⟩, .scalar ⟨.null, none⟩])]
+
+theorem exTree_eq : treeU exA.defaultSort 3 exU = exTree := by
+  simp only [exU, treeU, List.map_cons, List.map_nil, keyOf, List.length_cons, List.length_nil]
+  rw [sortKeys_eq_of_sorted exA.defaultSort _ [([97], _), ([98], _)] (List.Perm.swap _ _ _) (by decide)
+    (by simp [exA, keyLe, bytesLe, bytesLt])]
+  rfl
+
+theorem exMarshal : marshalV exTs exA exTrs 200 0 exU = ⟨exTree.flatten, none⟩ := by
+  have h := marshal_tree exTrs exEnv 3 exU 200 exHu (by rw [exTree_eq]; decide)
+  rw [exTree_eq] at h
+  exact h
+
+/-- the CBOR bytes of the example: `a2 61 61 07 61 62 83 05 61 78 f6` (keys sorted: a before b) -/
+theorem exHm : marshalCbor exTs exA exTrs 200 0 exU = some [162, 97, 97, 7, 97, 98, 131, 5, 97, 120, 246] := by
+  unfold marshalCbor
+  rw [exMarshal]
+  with_unfolding_all rfl
+
+/-- `fixpoint_cbor` applies: all its hypotheses hold for the example -/
+example : ∃ u2, unmarshalCbor exTs exA exTrs exIt 200 exIt.iface [162, 97, 97, 7, 97, 98, 131, 5, 97, 120, 246] = some u2 ∧
+    marshalCbor exTs exA exTrs 200 exIt.iface u2 = some [162, 97, 97, 7, 97, 98, 131, 5, 97, 120, 246] :=
+  fixpoint_cbor exTs exA exTrs exIt 200 3 exU _ exEnv exHu exHs exHm (by decide)
+
+theorem exHj : jsonU 3 exU = true := by
+  simp [jsonU, exU, keyOf, C03L.tv_ascii, C03L.tv_nil]
+
+/-- the compact JSON text of the example: `{"a":7,"b":[5,"x",null]}` -/
+theorem exHmJ : marshalJson ⟨none, []⟩ exTs exA exTrs 200 0 exU =
+    some [123, 34, 97, 34, 58, 55, 44, 34, 98, 34, 58, 91, 53, 44, 34, 120, 34, 44, 110, 117, 108, 108, 93, 125] := by
+  unfold marshalJson
+  rw [exMarshal]
+  with_unfolding_all rfl
+
+/-- `fixpoint_json` applies to the example (no float in it: `floatStable` is about the float text routines and
+    can be evaluated, `#eval floatStable 4609434218613702656` (1.5), but not reduced by the kernel) -/
+example : ∃ u2, unmarshalJson exTs exA exTrs exIt 200 exIt.iface
+      [123, 34, 97, 34, 58, 55, 44, 34, 98, 34, 58, 91, 53, 44, 34, 120, 34, 44, 110, 117, 108, 108, 93, 125] = some u2 ∧
+    marshalJson ⟨none, []⟩ exTs exA exTrs 200 exIt.iface u2 =
+      some [123, 34, 97, 34, 58, 55, 44, 34, 98, 34, 58, 91, 53, 44, 34, 120, 34, 44, 110, 117, 108, 108, 93, 125] :=
+  fixpoint_json ⟨none, []⟩ exTs exA exTrs exIt 200 3 exU _ (by decide) exEnv exHu exHj exHmJ (by decide)
+
+/-! ### The statements as first written, and their refutation (fuel) -/
+
+def untyped_roundtrip_statement : Prop :=
+  ∀ (ts : Types) (a : Atlas) (trs : Trs) (it : IfaceTys) (fuel n : Nat) (u : Val) (toks : List Tok),
+    UEnv ts a it → isU it n u = true → marshalV ts a trs fuel it.iface u = ⟨toks, none⟩ →
+    toks.length + n + 64 < fuel →
+    unmV ts a trs it fuel it.iface (.iface none) toks = .ok (sortU a.defaultSort n u) [] toks.length
+
+def fixpoint_tokens_statement : Prop :=
+  ∀ (ts : Types) (a : Atlas) (trs : Trs) (it : IfaceTys) (fuel n : Nat) (u : Val) (toks : List Tok),
+    UEnv ts a it → isU it n u = true → marshalV ts a trs fuel it.iface u = ⟨toks, none⟩ →
+    toks.length + n + 64 < fuel →
+    ∃ u', unmV ts a trs it fuel it.iface (.iface none) toks = .ok u' [] toks.length ∧
+          marshalV ts a trs fuel it.iface u' = ⟨toks, none⟩
+
+/-- (with the `smallU` of this file; the counterexample below has no container longer than one element, so it
+    satisfies the definition as first written as well) -/
+def fixpoint_cbor_statement : Prop :=
+  ∀ (ts : Types) (a : Atlas) (trs : Trs) (it : IfaceTys) (fuel n : Nat) (u1 : Val) (b2 : Bytes),
+    UEnv ts a it → isU it n u1 = true → smallU n u1 = true →
+    marshalCbor ts a trs fuel it.iface u1 = some b2 → 2 * b2.length + n + 64 < fuel →
+    ∃ u2, unmarshalCbor ts a trs it fuel it.iface b2 = some u2 ∧ marshalCbor ts a trs fuel it.iface u2 = some b2
+
+/-- `[[…[nil]…]]`, `d` levels of `[]interface{}` -/
+def nest : Nat → Val
+  | 0 => .iface none
+  | d+1 => .iface (some (8, .slice (some [nest d])))
+def nestToks : Nat → List Tok
+  | 0 => [⟨.null, none⟩]
+  | d+1 => ⟨.arrOpen 1, none⟩ :: (nestToks d ++ [⟨.arrClose, none⟩])
+
+set_option maxRecDepth 100000 in
+theorem cex_isU : isU exIt 34 (nest 33) = true := by with_unfolding_all rfl
+set_option maxRecDepth 100000 in
+theorem cex_small : smallU 34 (nest 33) = true := by with_unfolding_all rfl
+set_option maxRecDepth 100000 in
+theorem cex_tree : (treeU exA.defaultSort 34 (nest 33)).flatten = nestToks 33 := by with_unfolding_all rfl
+theorem cex_len : (nestToks 33).length = 67 := by with_unfolding_all rfl
+set_option maxRecDepth 100000 in
+/-- fuel 167 is exactly enough for the marshaller … -/
+theorem cex_marshal : marshalV exTs exA exTrs 167 exIt.iface (nest 33) = ⟨nestToks 33, none⟩ := by with_unfolding_all rfl
+set_option maxRecDepth 100000 in
+/-- … but the unmarshaller runs out of fuel at the innermost token -/
+theorem cex_unm : unmV exTs exA exTrs exIt 167 exIt.iface (.iface none) (nestToks 33) = .panic 33 := by with_unfolding_all rfl
+set_option maxRecDepth 100000 in
+theorem cex_marshalCbor : marshalCbor exTs exA exTrs 167 exIt.iface (nest 33) = some (List.replicate 33 129 ++ [246]) := by
+  with_unfolding_all rfl
+
+theorem untyped_roundtrip_statement_false : ¬ untyped_roundtrip_statement := by
+  intro h
+  have := h exTs exA exTrs exIt 167 34 (nest 33) (nestToks 33) exEnv cex_isU cex_marshal (by rw [cex_len]; decide)
+  rw [cex_unm] at this
+  cases this
+
+theorem fixpoint_tokens_statement_false : ¬ fixpoint_tokens_statement := by
+  intro h
+  obtain ⟨u', h1, _⟩ := h exTs exA exTrs exIt 167 34 (nest 33) (nestToks 33) exEnv cex_isU cex_marshal
+    (by rw [cex_len]; decide)
+  rw [cex_unm] at h1
+  cases h1
+
+theorem fixpoint_cbor_statement_false : ¬ fixpoint_cbor_statement := by
+  intro h
+  obtain ⟨u2, h1, _⟩ := h exTs exA exTrs exIt 167 34 (nest 33) _ exEnv cex_isU cex_small cex_marshalCbor (by decide)
+  rw [unmarshalCbor_eq exTs exA exTrs exIt 167 34 (nest 33) _ exEnv cex_isU cex_small cex_marshalCbor, cex_tree] at h1
+  have e : zeroVal exTs 64 exIt.iface = .iface none := rfl
+  rw [e, cex_unm] at h1
+  cases h1
 
 end Refmt.C12
